@@ -4350,3 +4350,2183 @@ def gen_events_fn() -> str:
         if not isinstance(pm, functools.partialmethod) or pm.func is not Z.__dict__["_list_command"]:
             raise GenError(f"EZSP.{nm}", "is no longer functools.partialmethod(_list_command, ...)")
     return "".join(out)
+
+
+
+
+# ==================================================================================================
+# AshProtocol.data_received: the byte-level receive loop (bellows/ash.py)
+# ==================================================================================================
+ASH_LOOP_PRELUDE = r"""(* ---- fixed vocabulary (not derived from the source) ---------------------------------------------
+   bytes / bytearray objects are lists of bytes; indices that come out of enumerate() are nat *)
+(* truthiness of a bytes-like object: `if x` / `while x` / `not x` *)
+Definition py_is_empty (l : list N) : bool := match l with [] => true | _ => false end.
+(* hay[:len(needle)] == needle *)
+Fixpoint py_startswith (hay needle : list N) {struct needle} : bool :=
+  match needle, hay with
+  | [], _ => true
+  | _ :: _, [] => false
+  | x :: needle', y :: hay' => (y =? x) && py_startswith hay' needle'
+  end.
+(* `needle in hay` for two bytes-like objects: a contiguous occurrence *)
+Fixpoint py_contains (needle hay : list N) : bool :=
+  py_startswith hay needle || match hay with [] => false | _ :: hay' => py_contains needle hay' end.
+(* hay.partition(sep), sep not empty: (before, sep, after) around the first occurrence; (hay, b"", b"") when there is none *)
+Fixpoint py_partition (sep hay : list N) : list N * list N * list N :=
+  if py_startswith hay sep then ([], sep, skipn (List.length sep) hay)
+  else match hay with
+       | [] => ([], [], [])
+       | x :: hay' => let '(before, s, after) := py_partition sep hay' in (x :: before, s, after)
+       end.
+(* next((i, x) for i, x in enumerate(l) if p i x): the first pair that passes the filter; None = StopIteration *)
+Fixpoint py_next_enumerate_from (p : nat -> N -> bool) (i : nat) (l : list N) : option (nat * N) :=
+  match l with
+  | [] => None
+  | x :: l' => if p i x then Some (i, x) else py_next_enumerate_from p (S i) l'
+  end.
+Definition py_next_enumerate (p : nat -> N -> bool) (l : list N) : option (nat * N) := py_next_enumerate_from p 0 l.
+(* l.pop(i) for i >= 0: the list without its i-th element; None = IndexError *)
+Fixpoint py_pop_at (i : nat) (l : list N) : option (list N) :=
+  match l, i with
+  | [], _ => None
+  | _ :: l', O => Some l'
+  | x :: l', S i' => option_map (cons x) (py_pop_at i' l')
+  end.
+(* l[-k:] for an integer k >= 0 (l[-0:] is l[0:], the whole object) *)
+Definition py_suffix (k : nat) (l : list N) : list N :=
+  match k with O => l | _ => skipn (List.length l - k) l end.
+(* how one run of a loop body ends: falls off the end / continue, break, an exception nobody caught *)
+Inductive py_ctl := CNext | CBreak | CRaise.
+(* how a call ends: returns, raises, or the fuel of a `while` ran out while its test still held
+   (proofs/AshLoopSrc_proofs.v: the last one never happens) *)
+Inductive py_outcome (St : Type) := Done (s : St) | Raised (s : St) | OutOfFuel (s : St).
+Arguments Done {St} s.
+Arguments Raised {St} s.
+Arguments OutOfFuel {St} s.
+(* while test: body -- on explicit fuel *)
+Fixpoint py_while {St : Type} (test : St -> bool) (body : St -> St * py_ctl) (fuel : nat) (s : St) : py_outcome St :=
+  if test s then
+    match fuel with
+    | O => OutOfFuel s
+    | S fuel' =>
+        match body s with
+        | (s', CNext) => py_while test body fuel' s'
+        | (s', CBreak) => Done s'
+        | (s', CRaise) => Raised s'
+        end
+    end
+  else Done s.
+
+"""
+
+ASH_LOOP_STATE = [("_buffer", "buffer", "bytes"), ("_discarding_until_next_flag", "discarding", "bool")] + ASH_STATE
+_LOOP_COQTY = {"bytes": "list N", "N": "N", "nat": "nat", "bool": "bool", "frame": "frame"}
+_LOOP_CTL = {"end": "CNext", "continue": "CNext", "break": "CBreak", "raise": "CRaise"}
+_LOOP_RESERVED_NAMES = {"s", "eff", "eff1", "fuel", "fix", "fun", "let", "end", "at", "match", "with", "then", "forall", "exists", "Type", "Set", "Prop"}
+
+
+class _LoopHandler:
+    def __init__(self, classes, label, body, ctx, k):
+        self.classes, self.label, self.body, self.ctx, self.k = classes, label, body, ctx, k
+
+
+class _LoopCtx:
+    """where a statement sits: kind 'fn' | 'loop'; groups of exception handlers, outermost try first"""
+
+    def __init__(self, kind, groups=()):
+        self.kind, self.groups = kind, tuple(groups)
+
+    def push(self, group):
+        return _LoopCtx(self.kind, self.groups + (tuple(group),))
+
+
+class LoopTr(MethodTr):
+    """A synchronous AshProtocol method with a `while` loop over self attributes.
+
+    Statements are translated in continuation style with an explicit, immutable environment (name -> type), so that
+    definite assignment is checked path by path.  Supported: assignments to self attributes of ASH_LOOP_STATE and to
+    locals (also tuple targets with `_`), bytes operations (extend / clear / pop(i) / partition / slices [:i] [i:] [-K:] /
+    `in` / len / bytes([..]) / truthiness), comparisons, if / elif / else, one `while <bytes attribute>:` at function
+    level (fuel = len + 1), break / continue / raise, try / except / else (no finally) and contextlib.suppress, resolved
+    structurally: an operation that can raise (next(<generator expression over enumerate>), x.pop(i),
+    self._unstuff_bytes(..), parse_frame(..), raise) continues with the innermost handler whose class catches every
+    class the operation can raise, otherwise the exception leaves the function.  Calls with effects are those of
+    MethodTr plus self.frame_received(frame) (= py_frame_received of GenAshRxFn.v).
+
+    A local that an earlier iteration may have bound (assigned inside the loop and also bound before it) is refused
+    when read before the current iteration assigns it: the emitted body has no loop-carried locals."""
+
+    def __init__(self, where, consts, ns, raising):
+        super().__init__(where, consts, {}, [])
+        self.ns = ns                      # namespace in which exception class names are resolved
+        self.raising = raising            # callee -> (Gallina option-valued function, result type, classes it can raise)
+        self.state = [c for _, c, _ in ASH_LOOP_STATE] + ["eff"]
+        self.state_types = {c: t for _, c, t in ASH_LOOP_STATE}
+        self.defs = []                    # definitions emitted before the main one (loop test / body)
+        self.loops = {}                   # (test, body, parameters) of a loop -> name of its definitions
+        self.fname = "py_fn"
+
+    # ---- helpers ---------------------------------------------------------------------------------
+    def tuple_(self):
+        return "(" + ", ".join(self.state) + ")"
+
+    def norm(self, e):
+        attrs = {a: c for a, c, _ in ASH_LOOP_STATE}
+
+        class Nrm(ast.NodeTransformer):
+            def visit_Attribute(s, n):
+                s.generic_visit(n)
+                if isinstance(n.value, ast.Name) and n.value.id == "self" and n.attr in attrs:
+                    return ast.copy_location(ast.Name(id=attrs[n.attr], ctx=n.ctx), n)
+                return n
+        return Nrm().visit(e)
+
+    @staticmethod
+    def noise(s):
+        if isinstance(s, ast.Expr) and isinstance(s.value, ast.Constant) and isinstance(s.value.value, str):
+            return True
+        if isinstance(s, ast.Expr) and isinstance(s.value, ast.Call) and ast.unparse(s.value.func).split(".")[0] in ("LOGGER", "_LOGGER"):
+            return True
+        return isinstance(s, ast.Pass)
+
+    def resolve_exc(self, node):
+        """an `except` / suppress() class expression -> tuple of live exception classes"""
+        if node is None:
+            return (BaseException,)
+        if isinstance(node, ast.Tuple):
+            return tuple(c for e in node.elts for c in self.resolve_exc(e))
+        try:
+            obj = _resolve(self.ns, node)
+        except Exception:
+            obj = None
+        if not (isinstance(obj, type) and issubclass(obj, BaseException)):
+            self.refuse(node, "not an exception class")
+        return (obj,)
+
+    # ---- expressions -----------------------------------------------------------------------------
+    def ty(self, e):
+        if isinstance(e, ast.Name):
+            t = self.types.get(e.id)
+            if t is None and e.id in self.consts:
+                return "N"
+            if t is None:
+                self.refuse(e, "name not bound on this path")
+            if t.startswith("poison"):
+                self.refuse(e, "local that an earlier iteration of the loop may have rebound (loop-carried locals are not supported)")
+            return t
+        if isinstance(e, ast.Call):
+            f = ast.unparse(e.func)
+            if f == "len" and len(e.args) == 1 and not e.keywords and self.ty(e.args[0]) == "bytes":
+                return "nat"
+            if f == "bytes" and len(e.args) == 1 and not e.keywords and isinstance(e.args[0], ast.List):
+                return "bytes"
+            self.refuse(e, "call in an expression")
+        if isinstance(e, ast.Subscript):
+            if self.ty(e.value) == "bytes" and isinstance(e.slice, ast.Slice):
+                return "bytes"
+            self.refuse(e, "subscript")
+        if isinstance(e, ast.BinOp) and isinstance(e.op, ast.Add):
+            lt, rt = self.ty(e.left), self.ty(e.right)
+            if "nat" in (lt, rt) and {lt, rt} <= {"nat", "N"}:
+                return "nat"
+            if lt == rt == "bytes":
+                return "bytes"
+        return super().ty(e)
+
+    def ex_nat(self, e):
+        """an integer expression read as a natural number (indices, lengths)"""
+        if isinstance(e, ast.Constant) and isinstance(e.value, int) and not isinstance(e.value, bool) and e.value >= 0:
+            return f"{e.value}%nat"
+        if isinstance(e, ast.Name) and e.id not in self.types and e.id in self.consts:
+            return f"(N.to_nat {self.consts[e.id]})"
+        t = self.ty(e)
+        if t == "nat":
+            return self.ex(e)
+        if t == "N":
+            return f"(N.to_nat {self.ex(e)})"
+        self.refuse(e, "not an integer")
+
+    def ex(self, e):
+        if isinstance(e, ast.Call):
+            f = ast.unparse(e.func)
+            if f == "len" and self.ty(e) == "nat":
+                return f"(List.length {self.ex(e.args[0])})"
+            if f == "bytes" and self.ty(e) == "bytes":
+                for x in e.args[0].elts:
+                    if self.ty(x) != "N":
+                        self.refuse(x, "element of a bytes literal")
+                return "[" + "; ".join(self.ex(x) for x in e.args[0].elts) + "]"
+            self.refuse(e, "call in an expression")
+        if isinstance(e, ast.Subscript):
+            if self.ty(e) != "bytes":
+                self.refuse(e, "subscript")
+            sl, base = e.slice, self.ex(e.value)
+            if sl.step is not None:
+                self.refuse(e, "slice with a step")
+            if sl.lower is None and sl.upper is not None and self.ty(sl.upper) == "nat":
+                return f"(firstn {self.ex_nat(sl.upper)} {base})"
+            if sl.upper is None and sl.lower is not None:
+                lo = sl.lower
+                if isinstance(lo, ast.UnaryOp) and isinstance(lo.op, ast.USub):
+                    k = lo.operand
+                    if (isinstance(k, ast.Name) and k.id not in self.types and k.id in self.consts) or \
+                            (isinstance(k, ast.Constant) and isinstance(k.value, int) and not isinstance(k.value, bool) and k.value >= 0):
+                        return f"(py_suffix {self.ex_nat(k)} {base})"
+                    self.refuse(e, "negative slice bound that is not a constant")
+                if self.ty(lo) == "nat":
+                    return f"(skipn {self.ex_nat(lo)} {base})"
+            self.refuse(e, "slice form (supported: x[:i], x[i:] with i from enumerate(), x[-K:] with a constant K)")
+        if isinstance(e, ast.BinOp) and isinstance(e.op, ast.Add):
+            t = self.ty(e)
+            if t == "nat":
+                return f"({self.ex_nat(e.left)} + {self.ex_nat(e.right)})%nat"
+            if t == "bytes":
+                return f"({self.ex(e.left)} ++ {self.ex(e.right)})"
+        if isinstance(e, ast.UnaryOp) and isinstance(e.op, ast.Not) and self.ty(e.operand) == "bytes":
+            return f"(py_is_empty {self.ex(e.operand)})"
+        if isinstance(e, ast.Compare) and len(e.ops) == 1:
+            op, lhs, rhs = e.ops[0], e.left, e.comparators[0]
+            if isinstance(op, (ast.In, ast.NotIn)):
+                lt = self.ty(lhs)
+                if isinstance(rhs, ast.Name) and rhs.id not in self.types and rhs.id in ("RESERVED_WITHOUT_ESCAPE", "RESERVED_BYTES"):
+                    if lt != "N":
+                        self.refuse(e, "membership of a non-integer in a set of reserved bytes")
+                    t = f"(mem_N {self.ex(lhs)} {rhs.id})"
+                elif self.ty(rhs) == "bytes" and lt == "bytes":
+                    t = f"(py_contains {self.ex(lhs)} {self.ex(rhs)})"
+                elif self.ty(rhs) == "bytes" and lt == "N":
+                    t = f"(mem_N {self.ex(lhs)} {self.ex(rhs)})"
+                else:
+                    self.refuse(e, "membership test")
+                return t if isinstance(op, ast.In) else f"(negb {t})"
+            lt, rt = self.ty(lhs), self.ty(rhs)
+            if {lt, rt} <= {"nat", "N"} and "nat" in (lt, rt):
+                a, b = self.ex_nat(lhs), self.ex_nat(rhs)
+                forms = {ast.Eq: f"({a} =? {b})%nat", ast.NotEq: f"(negb ({a} =? {b})%nat)", ast.Lt: f"({a} <? {b})%nat",
+                         ast.Gt: f"({b} <? {a})%nat", ast.LtE: f"({a} <=? {b})%nat", ast.GtE: f"({b} <=? {a})%nat"}
+                if type(op) in forms:
+                    return forms[type(op)]
+            if lt == rt == "N" and isinstance(op, (ast.Lt, ast.Gt, ast.LtE, ast.GtE)):
+                a, b = self.ex(lhs), self.ex(rhs)
+                return {ast.Lt: f"({a} <? {b})", ast.Gt: f"({b} <? {a})", ast.LtE: f"({a} <=? {b})", ast.GtE: f"({b} <=? {a})"}[type(op)]
+        return super().ex(e)
+
+    def cond(self, e):
+        t = self.ty(e)
+        if t == "bool":
+            return self.ex(e)
+        if t == "bytes":
+            return f"(negb (py_is_empty {self.ex(e)}))"
+        if t == "nat":
+            return f"(negb ({self.ex(e)} =? 0)%nat)"
+        if t != "N":
+            self.refuse(e, "truth value of this expression")
+        return super().cond(e)
+
+    # ---- control ---------------------------------------------------------------------------------
+    def finish(self, ctx, how, node=None):
+        if ctx.kind == "loop":
+            return f"({self.tuple_()}, {_LOOP_CTL[how]})"
+        if how in ("break", "continue"):
+            self.refuse(node, f"`{how}` outside a loop")
+        return f"{'Done' if how == 'end' else 'Raised'} {self.tuple_()}"
+
+    def raise_to(self, classes, what, env, ctx, node):
+        """the term that runs after an operation raised one of `classes` (live exception classes)"""
+        classes = set(classes)
+        for group in reversed(ctx.groups):
+            for h in group:
+                caught = {c for c in classes if issubclass(c, h.classes)}
+                if caught == classes:
+                    return self.seq(h.body, env, h.ctx, h.k)
+                if caught:
+                    missed = sorted(c.__name__ for c in classes - caught)
+                    self.refuse(node, f"`except {h.label}` catches only some of what {what} can raise (not {', '.join(missed)}); "
+                                      "the emitted callee does not tell the classes apart")
+        self.types = env
+        return self.finish(ctx, "raise", node)
+
+    def seq(self, stmts, env, ctx, k):
+        stmts = [s for s in stmts if not self.noise(s)]
+        if not stmts:
+            return k(env)
+        s, rest = stmts[0], stmts[1:]
+        return self.stmt(s, env, ctx, lambda env2: self.seq(rest, env2, ctx, k))
+
+    def bind(self, env, name, t, node):
+        if name in self.state or name in _LOOP_RESERVED_NAMES or name.startswith("py_"):
+            self.refuse(node, f"local name `{name}` clashes with the emitted vocabulary")
+        old = env.get(name)
+        if old is not None and not old.startswith("poison") and old != t:
+            self.refuse(node, "variable changes type")
+        env2 = dict(env)
+        env2[name] = t
+        return env2
+
+    def target(self, t, ty_, env, node):
+        """one assignment target -> (pattern variable, new env)"""
+        if isinstance(t, ast.Name) and t.id == "_":
+            return "_", env
+        if isinstance(t, ast.Name) and t.id in self.state_types:
+            if self.state_types[t.id] != ty_:
+                self.refuse(node, "type of the value assigned to a self attribute")
+            return t.id, env
+        if isinstance(t, ast.Name):
+            return t.id, self.bind(env, t.id, ty_, node)
+        self.refuse(node, "assignment target")
+
+    def raising_call(self, v):
+        """(option-valued term, result types, tuple result?, classes, description, (pattern, element) of a generator)
+        for an expression that can raise, else None"""
+        if isinstance(v, ast.Call) and isinstance(v.func, ast.Name) and v.func.id == "next":
+            if len(v.args) != 1 or v.keywords or not isinstance(v.args[0], ast.GeneratorExp):
+                self.refuse(v, "next() form (expected next(<generator expression>) without a default)")
+            g = v.args[0]
+            if len(g.generators) != 1 or g.generators[0].is_async:
+                self.refuse(g, "generator expression form")
+            c = g.generators[0]
+            it = c.iter
+            if not (isinstance(it, ast.Call) and isinstance(it.func, ast.Name) and it.func.id == "enumerate" and len(it.args) == 1 and not it.keywords
+                    and isinstance(c.target, ast.Tuple) and len(c.target.elts) == 2 and all(isinstance(x, ast.Name) for x in c.target.elts)):
+                self.refuse(g, "generator expression form (expected `for i, x in enumerate(<bytes>)`)")
+            if self.ty(it.args[0]) != "bytes":
+                self.refuse(it, "enumerate() of something other than bytes")
+            src = self.ex(it.args[0])
+            iv, xv = (x.id for x in c.target.elts)
+            for nm in (iv, xv):
+                if nm in self.types or nm in self.state or nm in _LOOP_RESERVED_NAMES:
+                    self.refuse(g, f"generator variable `{nm}` shadows another name")
+            saved = self.types
+            self.types = dict(saved, **{iv: "nat", xv: "N"})
+            flt = " && ".join(self.cond(t) for t in c.ifs) if c.ifs else "true"
+            elts = g.elt.elts if isinstance(g.elt, ast.Tuple) else [g.elt]
+            tys = [self.ty(x) for x in elts]
+            elt = "(" + ", ".join(self.ex(x) for x in elts) + ")" if isinstance(g.elt, ast.Tuple) else self.ex(g.elt)
+            self.types = saved
+            term = f"py_next_enumerate (fun {iv} {xv} => {flt}) {src}"
+            return term, tys, isinstance(g.elt, ast.Tuple), (StopIteration,), "next() on an exhausted generator", (f"({iv}, {xv})", elt)
+        if isinstance(v, ast.Call) and ast.unparse(v.func) in self.raising and len(v.args) == 1 and not v.keywords:
+            fn, rty, classes = self.raising[ast.unparse(v.func)]
+            if self.ty(v.args[0]) != "bytes":
+                self.refuse(v, "argument type")
+            return f"{fn} {self.ex(v.args[0])}", [rty], False, classes, ast.unparse(v.func), None
+        return None
+
+    def stmt(self, s, env, ctx, nxt):
+        self.types = env
+        ind = lambda t: textwrap.indent(t, "  ")
+        if isinstance(s, ast.Break) or isinstance(s, ast.Continue):
+            return self.finish(ctx, "break" if isinstance(s, ast.Break) else "continue", s)
+        if isinstance(s, ast.Raise):
+            if s.cause is not None or s.exc is None:
+                self.refuse(s, "raise form")
+            cls_node = s.exc.func if isinstance(s.exc, ast.Call) else s.exc
+            return self.raise_to(self.resolve_exc(cls_node), "this statement", env, ctx, s)
+        if isinstance(s, ast.If):
+            c = self.cond(s.test)
+            a = self.seq(list(s.body), env, ctx, nxt)
+            b = self.seq(list(s.orelse), env, ctx, nxt)
+            return f"if {c} then\n{ind(a)}\nelse\n{ind(b)}"
+        if isinstance(s, ast.With):
+            # with contextlib.suppress(X): body  ==  try: body / except X: pass
+            if len(s.items) == 1 and s.items[0].optional_vars is None and isinstance(s.items[0].context_expr, ast.Call) \
+                    and ast.unparse(s.items[0].context_expr.func) == "contextlib.suppress" and s.items[0].context_expr.args \
+                    and not s.items[0].context_expr.keywords:
+                a = s.items[0].context_expr.args
+                typ = a[0] if len(a) == 1 else ast.Tuple(elts=list(a), ctx=ast.Load())
+                return self.stmt(ast.Try(body=list(s.body), handlers=[ast.ExceptHandler(type=typ, name=None, body=[ast.Pass()])],
+                                         orelse=[], finalbody=[]), env, ctx, nxt)
+            self.refuse(s, "with statement (only contextlib.suppress(..) is supported)")
+        if isinstance(s, ast.Try):
+            if s.finalbody:
+                self.refuse(s, "try with a finally clause")
+            group = []
+            for h in s.handlers:
+                if h.name is not None:
+                    self.refuse(h, "handler that binds the exception")
+                group.append(_LoopHandler(self.resolve_exc(h.type), ast.unparse(h.type) if h.type else "<bare>", list(h.body), ctx, nxt))
+            inner = ctx.push(group)
+            return self.seq(list(s.body), env, inner, lambda env2: self.seq(list(s.orelse), env2, ctx, nxt))
+        if isinstance(s, ast.While):
+            return self.while_(s, env, ctx, nxt)
+        if isinstance(s, ast.Assign):
+            if len(s.targets) != 1:
+                self.refuse(s, "chained assignment")
+            tgt, v = s.targets[0], s.value
+            tgts = list(tgt.elts) if isinstance(tgt, ast.Tuple) else [tgt]
+            # x.partition(sep)
+            if isinstance(v, ast.Call) and isinstance(v.func, ast.Attribute) and v.func.attr == "partition":
+                if len(v.args) != 1 or v.keywords or self.ty(v.func.value) != "bytes" or self.ty(v.args[0]) != "bytes" or len(tgts) != 3:
+                    self.refuse(s, "partition form")
+                sep = v.args[0]
+                if not (isinstance(sep, ast.Call) and isinstance(sep.args[0], ast.List) and sep.args[0].elts):
+                    self.refuse(s, "partition separator must be a non-empty bytes([..]) literal")
+                term = f"py_partition {self.ex(sep)} {self.ex(v.func.value)}"
+                pats, env2 = [], env
+                for t in tgts:
+                    p, env2 = self.target(t, "bytes", env2, s)
+                    pats.append(p)
+                return f"let '({', '.join(pats)}) := {term} in\n{nxt(env2)}"
+            r = self.raising_call(v)
+            if r is not None:
+                term, tys, is_tuple, classes, what, via = r
+                if is_tuple != isinstance(tgt, ast.Tuple) or len(tys) != len(tgts):
+                    self.refuse(s, "shape of the assignment target")
+                pats, env2 = [], env
+                for t, ty_ in zip(tgts, tys):
+                    p, env2 = self.target(t, ty_, env2, s)
+                    pats.append(p)
+                pat = "(" + ", ".join(pats) + ")" if is_tuple else pats[0]
+                bad = self.raise_to(classes, what, env, ctx, s)
+                good = nxt(env2)
+                if via is not None:       # the generator's own variables, then the element it yields
+                    good = f"let {"'" if is_tuple else ""}{pat} := {via[1]} in\n{good}"
+                    pat = via[0]
+                return f"match {term} with\n| None =>\n{ind(bad)}\n| Some {pat} =>\n{ind(good)}\nend"
+            if isinstance(tgt, ast.Tuple):
+                self.refuse(s, "tuple assignment")
+            ty_ = self.ty(v)
+            if ty_ == "bytes" and isinstance(v, ast.Name) and (v.id in self.state_types or self.state_types.get(getattr(tgt, "id", None))):
+                self.refuse(s, "second name for a bytearray attribute (aliasing is not tracked)")
+            if ty_ not in _LOOP_COQTY:
+                self.refuse(s, "type of the assigned value")
+            term = self.ex(v)
+            p, env2 = self.target(tgt, ty_, env, s)
+            return f"let {p} := {term} in\n{nxt(env2)}"
+        if isinstance(s, ast.Expr) and isinstance(s.value, ast.Call):
+            call = s.value
+            f = call.func
+            if isinstance(f, ast.Attribute) and isinstance(f.value, ast.Name) and f.value.id in env and not call.keywords \
+                    and f.attr in ("extend", "clear", "pop", "append"):
+                if self.ty(f.value) != "bytes":
+                    self.refuse(s, "method of a non-bytes value")
+                x = f.value.id
+                if x not in self.state_types:
+                    self.refuse(s, "in-place change of a local (aliasing is not tracked)")
+                if f.attr == "extend" and len(call.args) == 1 and self.ty(call.args[0]) == "bytes":
+                    return f"let {x} := {x} ++ {self.ex(call.args[0])} in\n{nxt(env)}"
+                if f.attr == "append" and len(call.args) == 1 and self.ty(call.args[0]) == "N":
+                    return f"let {x} := {x} ++ [{self.ex(call.args[0])}] in\n{nxt(env)}"
+                if f.attr == "clear" and not call.args:
+                    return f"let {x} := [] in\n{nxt(env)}"
+                if f.attr == "pop" and len(call.args) == 1 and self.ty(call.args[0]) == "nat":
+                    term = f"py_pop_at {self.ex(call.args[0])} {x}"
+                    bad = self.raise_to((IndexError,), "pop()", env, ctx, s)
+                    return f"match {term} with\n| None =>\n{ind(bad)}\n| Some {x} =>\n{ind(nxt(env))}\nend"
+                self.refuse(s, "bytearray method call")
+            if ast.unparse(f) == "self.frame_received" and len(call.args) == 1 and not call.keywords \
+                    and isinstance(call.args[0], ast.Name) and self.ty(call.args[0]) == "frame":
+                st4 = "(" + ", ".join(c for _, c, _ in ASH_STATE) + ")"
+                pat = "(" + ", ".join([c for _, c, _ in ASH_STATE] + ["eff1"]) + ")"
+                return (f"let '{pat} := py_frame_received {st4} {call.args[0].id} in\nlet eff := eff ++ eff1 in\n{nxt(env)}")
+            eff = self.effect(call)
+            if isinstance(eff, tuple):
+                self.refuse(s, "call of another method")
+            return f"let eff := eff ++ [{eff}] in\n{nxt(env)}"
+        self.refuse(s)
+
+    def while_(self, s, env, ctx, nxt):
+        if ctx.kind != "fn" or ctx.groups:
+            self.refuse(s, "while loop inside another loop or inside a try block")
+        if s.orelse:
+            self.refuse(s, "while ... else")
+        if not (isinstance(s.test, ast.Name) and self.state_types.get(s.test.id) == "bytes"):
+            self.refuse(s.test, "loop test (expected the truthiness of a bytes attribute, whose length + 1 is the fuel)")
+        var = s.test.id
+        # names bound before the loop that the body (or a later iteration) rebinds cannot be read before they are assigned
+        assigned = set()
+        for node in ast.walk(ast.Module(body=list(s.body), type_ignores=[])):
+            if isinstance(node, ast.Name) and isinstance(node.ctx, ast.Store):
+                assigned.add(node.id)
+        loads = {node.id for node in ast.walk(ast.Module(body=list(s.body), type_ignores=[])) if isinstance(node, ast.Name) and isinstance(node.ctx, ast.Load)}
+        env_loop = {k: (f"poison:{v}" if k in assigned and k not in self.state_types else v) for k, v in env.items()}
+        extra = [k for k, v in env_loop.items() if k not in self.state_types and k != "eff" and not v.startswith("poison") and k in loads]
+        self.types = env_loop
+        test = self.cond(s.test)
+        body = self.seq(list(s.body), env_loop, _LoopCtx("loop"), lambda e: self.finish(_LoopCtx("loop"), "end"))
+        sty = f"{self.fname}_state"
+        args = "".join(f" ({k} : {_LOOP_COQTY[env_loop[k]]})" for k in extra)
+        key = (test, body, args)
+        if key not in self.loops:          # an `if` in front of the loop duplicates what follows it: one definition is enough
+            n = len(self.loops)
+            tag = self.loops[key] = f"{self.fname}_loop{n if n else ''}"
+            self.defs.append(f"(* the test of the while loop *)\nDefinition {tag}_test (s : {sty}) : bool :=\n"
+                             f"  let '{self.tuple_()} := s in\n  {test}.\n")
+            self.defs.append(f"(* one run of the loop body: the state afterwards and how the run ended *)\n"
+                             f"Definition {tag}_body{args} (s : {sty}) : {sty} * py_ctl :=\n"
+                             f"  let '{self.tuple_()} := s in\n{textwrap.indent(body, '  ')}.\n")
+        tag = self.loops[key]
+        call_args = "".join(f" {k}" for k in extra)
+        after = nxt(env_loop)
+        return (f"match py_while {tag}_test ({tag}_body{call_args}) (S (List.length {var})) {self.tuple_()} with\n"
+                f"| Done s =>\n  let '{self.tuple_()} := s in\n{textwrap.indent(after, '  ')}\n"
+                f"| Raised s => Raised s\n| OutOfFuel s => OutOfFuel s\nend")
+
+
+def _raise_classes(ns, fns) -> tuple:
+    """exception classes the given functions can raise themselves: raise statements, failed asserts, integer subscripts,
+    constructors of bellows.types (an enum call on an unknown value)"""
+    found = {}
+    for fn in fns:
+        node = _fn_ast(fn)
+        q = getattr(getattr(fn, "__func__", fn), "__qualname__", str(fn))
+        for n in ast.walk(node):
+            if isinstance(n, ast.Raise):
+                if n.exc is None:
+                    raise GenError(q, "bare `raise`")
+                c = n.exc.func if isinstance(n.exc, ast.Call) else n.exc
+                try:
+                    obj = _resolve(ns, c)
+                except Exception:
+                    obj = None
+                if not (isinstance(obj, type) and issubclass(obj, BaseException)):
+                    raise GenError(q, f"cannot resolve the class raised by `{ast.unparse(n)[:60]}`")
+                found.setdefault(obj, q)
+            elif isinstance(n, ast.Assert):
+                found.setdefault(AssertionError, q)
+            elif isinstance(n, ast.Subscript) and not isinstance(n.slice, ast.Slice) and isinstance(n.ctx, ast.Load):
+                found.setdefault(IndexError, q)
+            elif isinstance(n, ast.Call) and isinstance(n.func, ast.Attribute) and isinstance(n.func.value, ast.Name) and n.func.value.id == "t":
+                found.setdefault(ValueError, q)
+    return tuple(found)
+
+
+def gen_ash_loop_fn() -> str:
+    import builtins
+
+    import bellows.ash as ash
+
+    P = ash.AshProtocol
+    where = "AshProtocol.data_received (source)"
+    consts = {f"Reserved.{m.name}": int(m) for m in ash.Reserved}
+    if not isinstance(ash.MAX_BUFFER_SIZE, int) or ash.MAX_BUFFER_SIZE < 0:
+        raise GenError("MAX_BUFFER_SIZE", "not a non-negative integer")
+    consts["MAX_BUFFER_SIZE"] = "MAX_BUFFER_SIZE"          # the value is GenAsh.v's, read from the same live module
+    rwe = ash.RESERVED_WITHOUT_ESCAPE
+    if not isinstance(rwe, frozenset) or not all(isinstance(v, ash.Reserved) for v in rwe):
+        raise GenError("RESERVED_WITHOUT_ESCAPE", "not a frozenset of Reserved members")
+    ns = dict(vars(builtins))
+    ns.update(vars(ash))
+    # what the two callees of the try block can raise (read from their source; the emitted callees return None for all of them)
+    frame_classes = [ash.DataFrame, ash.AckFrame, ash.NakFrame, ash.RstFrame, ash.RStackFrame, ash.ErrorFrame]
+    unstuff_raises = _raise_classes(ns, [P._unstuff_bytes])
+    parse_raises = _raise_classes(ns, [ash.parse_frame, ash.AshFrame._unwrap, ash.DataFrame._randomize] + [c.from_bytes for c in frame_classes])
+    raising = {"self._unstuff_bytes": ("py_unstuff_bytes", "bytes", unstuff_raises),
+               "parse_frame": ("parse", "frame", parse_raises)}
+    # the two attributes start empty / False and no other method touches them
+    init_src = "\n".join(ast.unparse(s) for s in _fn_ast(P.__init__).body)
+    for need in ("self._buffer = bytearray()", "self._discarding_until_next_flag: bool = False"):
+        if need not in init_src:
+            raise GenError("AshProtocol.__init__", f"`{need}` not found")
+    for name, fn in vars(P).items():
+        if name in ("data_received", "__init__") or not inspect.isfunction(getattr(fn, "__func__", fn)):
+            continue
+        try:
+            txt = inspect.getsource(getattr(fn, "__func__", fn))
+        except (OSError, TypeError):
+            continue
+        for attr in ("_buffer", "_discarding_until_next_flag"):
+            if f"self.{attr}" in txt:
+                raise GenError(f"AshProtocol.{name}", f"touches self.{attr}, which the emitted receive loop owns")
+    node = _fn_ast(P.data_received)
+    params = [a.arg for a in node.args.args]
+    if params != ["self", "data"] or node.args.vararg or node.args.kwarg or node.args.kwonlyargs or node.decorator_list:
+        raise GenError(where, f"parameters {params}")
+    tr = LoopTr(where, consts, ns, raising)
+    tr.fname = "py_data_received"
+    env = {c: t for _, c, t in ASH_LOOP_STATE}
+    env["eff"] = "effs"
+    env["data"] = "bytes"
+    body = [tr.norm(s) for s in node.body]
+    for s in body:
+        for n in ast.walk(s):
+            if isinstance(n, ast.Return):
+                raise GenError(where, "return statement")
+    main = tr.seq(body, env, _LoopCtx("fn"), lambda e: tr.finish(_LoopCtx("fn"), "end"))
+    sty = " * ".join(_LOOP_COQTY[t] for _, _, t in ASH_LOOP_STATE) + " * list py_eff"
+    names = lambda cs: ", ".join(sorted(c.__name__ for c in cs))
+    out = ["(* GENERATED by harness/pysrc.py from the SOURCE TEXT of AshProtocol.data_received (bellows/ash.py) -- do not edit *)\n"
+           "From Coq Require Import NArith Arith List Bool.\nImport ListNotations.\n"
+           "Require Import BV.gen.GenAsh BV.gen.GenAshFn BV.gen.GenAshRxFn BV.model.AshCodec.\nOpen Scope N_scope.\n\n",
+           ASH_LOOP_PRELUDE,
+           "(* ---- from the live module ------------------------------------------------------------------------ *)\n"
+           f"Definition RESERVED_WITHOUT_ESCAPE : list N := [{'; '.join(str(int(v)) for v in sorted(rwe))}].\n\n"
+           "(* state: (self._buffer, self._discarding_until_next_flag, _rx_seq, _tx_seq, _ncp_state is FAILED, _ncp_reset_code,\n"
+           "   effects so far); the last five are what frame_received works on (gen/GenAshRxFn.v).  Both attributes are created\n"
+           "   empty / False by __init__ and no other method of AshProtocol mentions them (checked at generation).\n"
+           f"   self._unstuff_bytes is py_unstuff_bytes (gen/GenAshFn.v; None = {names(unstuff_raises)}); parse_frame is the codec\n"
+           f"   model's `parse` (None = {names(parse_raises)}, as found in the source of parse_frame, the from_bytes\n"
+           "   methods, _unwrap and _randomize); self.frame_received is py_frame_received.  _write_frame is recorded as an effect\n"
+           "   and taken not to raise (transport open), so contextlib.suppress(NcpFailure) around it changes nothing here.\n"
+           "   Log calls are dropped. *)\n"
+           f"Definition py_data_received_state : Type := {sty}.\n\n"]
+    out.extend(d + "\n" for d in tr.defs)
+    out.append("(* from the source of AshProtocol.data_received *)\n"
+               "Definition py_data_received (s : py_data_received_state) (data : list N) : py_outcome py_data_received_state :=\n"
+               f"  let '{tr.tuple_()} := s in\n{textwrap.indent(main, '  ')}.\n")
+    return "".join(out)
+
+
+
+
+# ==================================================================================================
+# ASH sender (bellows/ash.py): AshProtocol._change_ack_timeout, send_data, _send_data_frame and the attributes
+# __init__ gives them -> gen/GenAshTxFn.v.  The coroutine is cut at its suspension points: the entry of the
+# TX_K semaphore and `await ack_future` under asyncio_timeout; one Gallina function per segment.
+# ==================================================================================================
+TX_STATE = [c for _, c, _ in ASH_STATE] + ["t_rx_ack"]          # rx_seq, tx_seq, failed, code, t_rx_ack
+TX_S = ", ".join(TX_STATE)
+TX_SELF = {a: (c, t) for a, c, t in ASH_STATE if t == "N" and a != "_ncp_reset_code"}
+TX_SELF["_t_rx_ack"] = ("t_rx_ack", "float")
+TX_COQTY = {"N": "N", "optN": "option N", "float": "float", "frame": "py_dataframe"}
+TX_RESERVED = set(TX_STATE) | {"now", "eff", "eff_rx", "exc_code", "s", "r", "waited", "self"}
+
+TX_PRELUDE = """(* GENERATED by harness/pysrc.py from the SOURCE TEXT of AshProtocol._change_ack_timeout, send_data, _send_data_frame and
+   __init__ (bellows/ash.py) in the working tree -- do not edit *)
+From Coq Require Import PrimFloat NArith List Bool.
+Import ListNotations.
+Require Import BV.gen.GenAsh BV.model.AshCodec BV.gen.GenAshRxFn.
+Open Scope N_scope.
+
+(* ---- fixed vocabulary (not derived from the source) ---------------------------------------------------------------
+   Floats are IEEE binary64 (PrimFloat), literals converted with float.hex(); an int literal that meets a float is
+   converted exactly (refused otherwise); `7 / 8` on two int literals is the correctly rounded quotient, i.e. the
+   binary64 division of the two (exactly represented) operands.
+   Python's built-in min / max on two arguments (bltinmodule.c, min_max): the first argument is kept unless the second
+   compares strictly below (min) / above (max) it; comparisons with a NaN are false. *)
+Definition py_min (a b : float) : float := if PrimFloat.ltb b a then b else a.
+Definition py_max (a b : float) : float := if PrimFloat.ltb a b then b else a.
+
+(* the sender's view of the protocol object: (_rx_seq, _tx_seq, _ncp_state is FAILED, _ncp_reset_code with None = 256,
+   _t_rx_ack); the first four are the state of gen/GenAshRxFn.v, whose functions are called for inlined methods *)
+Definition tx_state := (N * N * bool * N * float)%type.
+
+(* exceptions the control flow distinguishes, and how `await ack_future` under asyncio_timeout(..) resumes: the future
+   got its result (_handle_ack), an exception (_cancel_pending_data_frames(NotAcked(..) | NcpFailure(code))), or the
+   timeout expired.  (close() / connection_lost() put a RuntimeError into the future: outside the C05 model.) *)
+Inductive tx_exc := XNotAcked | XNcpFailure (code : N) | XTimeout.
+Inductive tx_waited := WAcked | WNotAcked | WNcpFailure (code : N) | WTimeout.
+"""
+
+
+def _tx_pure(e) -> bool:
+    """a test that can be dropped with the log call it guards: reads only"""
+    for n in ast.walk(e):
+        if isinstance(n, ast.Call):
+            f = ast.unparse(n.func)
+            if f not in ("abs", "self._send_data_frame_semaphore.locked") or n.keywords:
+                return False
+        elif not isinstance(n, (ast.Name, ast.Attribute, ast.Constant, ast.BinOp, ast.Compare, ast.UnaryOp, ast.operator, ast.BoolOp, ast.boolop,
+                                ast.cmpop, ast.unaryop, ast.expr_context)):
+            return False
+    return True
+
+
+def _tx_clean(node):
+    """strip log calls and docstrings, then every `if <read-only test>:` left with empty branches"""
+    node = _StripLogs().visit(node)
+    removed = []
+    empty = lambda b: all(isinstance(x, ast.Pass) for x in b)
+    for parent in ast.walk(node):
+        for f in ("body", "orelse", "finalbody"):
+            body = getattr(parent, f, None)
+            if not (isinstance(body, list) and body and isinstance(body[0], ast.stmt)):
+                continue
+            new = []
+            for s in body:
+                if isinstance(s, ast.If) and empty(s.body) and empty(s.orelse) and _tx_pure(s.test):
+                    removed.append(f"if {ast.unparse(s.test)}: <log>")
+                else:
+                    new.append(s)
+            setattr(parent, f, new or ([ast.Pass()] if f == "body" else []))
+    return list(node.body), removed
+
+
+class TxTr:
+    """statements of the sender's methods in continuation style.  `env` maps a Python local to its type ('N', 'optN',
+    'float', 'bool', 'frame', 'future'); self attributes are the variables of TX_STATE; `eff` collects the calls made on
+    other objects; `k(env)` yields the term for what follows.  Leaving the loop body by raise / break goes through
+    `on_raise` / `on_break`, which the generator sets from the enclosing try/finally and async with."""
+
+    def __init__(self, where, ash, writable, fields=None):
+        self.where, self.ash, self.writable, self.fields = where, ash, set(writable), fields
+        self.on_raise = self.on_break = None
+        self.in_finally = False
+
+    def refuse(self, node, why="unsupported construct"):
+        src = ast.unparse(node) if isinstance(node, ast.AST) else str(node)
+        raise GenError(self.where, f"{why}: `{src[:100]}`")
+
+    # ---- literals ---------------------------------------------------------------------------------------------------
+    def flit(self, v, node):
+        import math
+        f = float(v)
+        if isinstance(v, int) and (abs(v) >= 2 ** 53 or int(f) != v):
+            self.refuse(node, "int literal not exactly representable as a float")
+        if math.isnan(f) or math.isinf(f) or math.copysign(1.0, f) < 0:
+            self.refuse(node, "float literal")
+        return f"{f.hex()}%float"
+
+    @staticmethod
+    def is_int_lit(e):
+        return isinstance(e, ast.Constant) and type(e.value) is int and e.value >= 0
+
+    def as_float(self, e, env):
+        """operand of a float operation"""
+        if self.is_int_lit(e):
+            return self.flit(e.value, e)
+        term, ty = self.ex(e, env)
+        if ty != "float":
+            self.refuse(e, "operand of a float operation is not a float")
+        return term
+
+    # ---- expressions -> (term, type) ----------------------------------------------------------------------------------
+    def ex(self, e, env):
+        src = ast.unparse(e)
+        if isinstance(e, ast.Constant):
+            if e.value is None:
+                return "None", "none"
+            if self.is_int_lit(e):
+                return str(e.value), "N"
+            if type(e.value) is float:
+                return self.flit(e.value, e), "float"
+            self.refuse(e, "constant")
+        if isinstance(e, ast.Name):
+            if e.id in env:
+                if env[e.id] == "future":
+                    self.refuse(e, "a future used as a value")
+                return e.id, env[e.id]
+            v = vars(self.ash).get(e.id, _MISSING)
+            if e.id in ("ACK_TIMEOUTS", "TX_K") and type(v) is int and v >= 0:
+                return e.id, "N"                                      # gen/GenAsh.v
+            if e.id in ("T_RX_ACK_INIT", "T_RX_ACK_MIN", "T_RX_ACK_MAX") and type(v) is float:
+                return e.id + "_F", "float"                           # gen/GenAsh.v
+            self.refuse(e, "unknown name")
+        if isinstance(e, ast.Attribute):
+            if isinstance(e.value, ast.Name) and e.value.id == "self" and e.attr in TX_SELF:
+                return TX_SELF[e.attr]
+            if src.startswith("t.NcpResetCode.") and src.count(".") == 2:
+                import bellows.types as t
+                if e.attr in t.NcpResetCode.__members__:
+                    return str(int(t.NcpResetCode[e.attr])), "N"
+            self.refuse(e, "unknown attribute")
+        if isinstance(e, ast.Call):
+            if src == "time.monotonic()":
+                return "now", "float"
+            if isinstance(e.func, ast.Name) and e.func.id in ("min", "max") and len(e.args) == 2 and not e.keywords \
+                    and vars(self.ash).get(e.func.id, _MISSING) is _MISSING:
+                a, b = (self.as_float(x, env) for x in e.args)
+                return f"(py_{e.func.id} {a} {b})", "float"
+            self.refuse(e, "call")
+        if isinstance(e, ast.BinOp):
+            l, r = e.left, e.right
+            if isinstance(e.op, ast.Div):
+                if self.is_int_lit(l) and self.is_int_lit(r):
+                    if r.value == 0:
+                        self.refuse(e, "division by zero")
+                    return f"(PrimFloat.div {self.flit(l.value, l)} {self.flit(r.value, r)})", "float"
+                return f"(PrimFloat.div {self.as_float(l, env)} {self.as_float(r, env)})", "float"
+            both_lit = self.is_int_lit(l) and self.is_int_lit(r)
+            tl = "N" if self.is_int_lit(l) else self.ex(l, env)[1]
+            tr_ = "N" if self.is_int_lit(r) else self.ex(r, env)[1]
+            if "float" in (tl, tr_) and not both_lit:
+                ops = {ast.Add: "add", ast.Sub: "sub", ast.Mult: "mul"}
+                if type(e.op) not in ops:
+                    self.refuse(e, "float operator")
+                return f"(PrimFloat.{ops[type(e.op)]} {self.as_float(l, env)} {self.as_float(r, env)})", "float"
+            if tl == "N" and tr_ == "N":
+                a, b = self.ex(l, env)[0], self.ex(r, env)[0]
+                if isinstance(e.op, ast.Add):
+                    return f"({a} + {b})", "N"
+                if isinstance(e.op, ast.Mult):
+                    return f"({a} * {b})", "N"
+                if isinstance(e.op, ast.Mod):
+                    if not (self.is_int_lit(r) and r.value > 0):
+                        self.refuse(e, "modulus is not a positive literal")
+                    return f"({a} mod {b})", "N"
+                if isinstance(e.op, ast.Sub):
+                    # N.sub truncates at zero: only a live module constant minus a literal that stays non-negative
+                    v = vars(self.ash).get(l.id, _MISSING) if isinstance(l, ast.Name) and l.id not in env else _MISSING
+                    if type(v) is int and self.is_int_lit(r) and v - r.value >= 0:
+                        return f"({a} - {b})", "N"
+                    self.refuse(e, "integer subtraction that may go below zero")
+            self.refuse(e, "operator / operand types")
+        if isinstance(e, ast.Compare):
+            if len(e.ops) != 1:
+                self.refuse(e, "chained comparison")
+            op, l, r = e.ops[0], e.left, e.comparators[0]
+            if ast.unparse(l) == "self._ncp_state" and isinstance(op, (ast.Eq, ast.NotEq, ast.Is, ast.IsNot)):
+                if set(self.ash.NcpState.__members__) != {"CONNECTED", "FAILED"}:
+                    self.refuse(e, "NcpState has other members than CONNECTED / FAILED")
+                rhs = ast.unparse(r)
+                if rhs not in ("NcpState.FAILED", "NcpState.CONNECTED"):
+                    self.refuse(e, "state value")
+                pos = rhs.endswith("FAILED") == isinstance(op, (ast.Eq, ast.Is))
+                return ("failed" if pos else "(negb failed)"), "bool"
+            (a, ta), (b, tb) = self.ex(l, env), self.ex(r, env)
+            if ta == "N" and tb == "N":
+                t = {ast.Eq: f"({a} =? {b})", ast.NotEq: f"(negb ({a} =? {b}))", ast.Lt: f"({a} <? {b})", ast.LtE: f"({a} <=? {b})",
+                     ast.Gt: f"({b} <? {a})", ast.GtE: f"({b} <=? {a})"}.get(type(op))
+                if t:
+                    return t, "bool"
+            self.refuse(e, "comparison")
+        if isinstance(e, ast.UnaryOp) and isinstance(e.op, ast.Not):
+            t, ty = self.ex(e.operand, env)
+            if ty == "bool":
+                return f"(negb {t})", "bool"
+        self.refuse(e, "expression")
+
+    def state(self):
+        return f"({TX_S})"
+
+    # ---- statements -------------------------------------------------------------------------------------------------------
+    def block(self, body, env, k):
+        ind = lambda txt: textwrap.indent(txt, "  ")
+        if not body:
+            return k(env)
+        s, rest = body[0], list(body[1:])
+        go = lambda env2=env: self.block(rest, env2, k)
+        if isinstance(s, ast.Pass) or (isinstance(s, ast.Expr) and isinstance(s.value, ast.Constant)):
+            return go()
+        src = ast.unparse(s)
+        # ---- if
+        if isinstance(s, ast.If):
+            t = s.test
+            then = lambda env2: self.block(list(s.body), env2, lambda e3: self.block(rest, e3, k))
+            other = lambda env2: self.block(list(s.orelse), env2, lambda e3: self.block(rest, e3, k))
+            if isinstance(t, ast.Compare) and len(t.ops) == 1 and isinstance(t.ops[0], (ast.Is, ast.IsNot)) \
+                    and isinstance(t.comparators[0], ast.Constant) and t.comparators[0].value is None and isinstance(t.left, ast.Name):
+                v = t.left.id
+                if env.get(v) not in ("optN", "N"):
+                    self.refuse(t, "`is None` on something that is not an optional integer local")
+                none_b, some_b = (then, other) if isinstance(t.ops[0], ast.Is) else (other, then)
+                if env[v] == "N":
+                    return f"(* {v} is not None here *)\n" + some_b(env)
+                return (f"match {v} with\n| None =>\n{textwrap.indent(none_b(dict(env)), '    ')}\n"
+                        f"| Some {v} =>\n{textwrap.indent(some_b(dict(env, **{v: 'N'})), '    ')}\nend")
+            c, ty = self.ex(t, env)
+            if ty != "bool":
+                self.refuse(t, "condition is not a boolean")
+            return f"if {c} then\n{ind(then(dict(env)))}\nelse\n{ind(other(dict(env)))}"
+        # ---- raise / break
+        if isinstance(s, ast.Raise):
+            if self.in_finally or self.on_raise is None or s.cause is not None:
+                self.refuse(s, "raise here")
+            if s.exc is None:
+                if not env.get("$cur"):
+                    self.refuse(s, "bare raise outside an except clause")
+                return self.on_raise(env["$cur"], env)
+            x = s.exc
+            if isinstance(x, ast.Call) and ast.unparse(x.func) == "NcpFailure" and len(x.args) + len(x.keywords) == 1 \
+                    and (x.args or x.keywords[0].arg == "code"):
+                code, ty = self.ex(x.args[0] if x.args else x.keywords[0].value, env)
+                if ty != "N":
+                    self.refuse(s, "reset code")
+                return self.on_raise(f"(XNcpFailure {code})", env)
+            self.refuse(s, "raise of another exception")
+        if isinstance(s, ast.Break):
+            if self.in_finally or self.on_break is None:
+                self.refuse(s, "break here")
+            return self.on_break(env)
+        # ---- assignments
+        if isinstance(s, ast.Assign) and len(s.targets) == 1:
+            tgt, val = s.targets[0], s.value
+            if isinstance(tgt, ast.Name):
+                name = tgt.id
+                if name in TX_RESERVED or name.startswith("f_"):
+                    self.refuse(s, "local name clashes with the translation's own names")
+                if ast.unparse(val) == "asyncio.get_running_loop().create_future()":
+                    return f"(* {name} = <a new future> *)\n" + go(dict(env, **{name: "future"}))
+                if isinstance(val, ast.Call) and isinstance(val.func, ast.Attribute) and val.func.attr == "replace" \
+                        and isinstance(val.func.value, ast.Name) and env.get(val.func.value.id) == "frame" and not val.args and self.fields:
+                    kws = {kw.arg: kw.value for kw in val.keywords}
+                    if None in kws or set(kws) - {f for f, _ in self.fields}:
+                        self.refuse(s, "replace() keywords")
+                    pat, terms = [], []
+                    for f, fty in self.fields:
+                        if f not in kws:
+                            pat.append("f_" + f)
+                            terms.append("f_" + f)
+                            continue
+                        pat.append("_")
+                        if fty != "N":
+                            self.refuse(s, f"replace() of the field {f}")
+                        term, ty = self.ex(kws[f], env)
+                        if ty == "bool":                       # bool is an int: True == 1 (DataFrame.to_bytes shifts it)
+                            term, ty = f"(N.b2n {term})", "N"
+                        if ty not in ("N", "optN", "none"):
+                            self.refuse(kws[f], "value of a frame field")
+                        terms.append(f"Some {term}" if ty == "N" else term)
+                    return (f"let '({', '.join(pat)}) := {val.func.value.id} in   (* dataclasses.replace: other fields kept *)\n"
+                            f"let {name} := ({', '.join(terms)}) in\n" + go(dict(env, **{name: "frame"})))
+                term, ty = self.ex(val, env)
+                if ty == "none":
+                    term, ty = "@None N", "optN"
+                if ty not in ("N", "optN", "float", "bool"):
+                    self.refuse(s, "assigned value")
+                return f"let {name} := {term} in\n" + go(dict(env, **{name: ty}))
+            if isinstance(tgt, ast.Attribute) and isinstance(tgt.value, ast.Name) and tgt.value.id == "self" and tgt.attr in TX_SELF:
+                var, vty = TX_SELF[tgt.attr]
+                if var not in self.writable:
+                    self.refuse(s, "assignment to this attribute")
+                term = self.as_float(val, env) if vty == "float" else self.ex(val, env)[0]
+                if vty == "N" and self.ex(val, env)[1] != "N":
+                    self.refuse(s, "type of the assigned value")
+                return f"let {var} := {term} in\n" + go()
+            if isinstance(tgt, ast.Subscript) and ast.unparse(tgt.value) == "self._pending_data_frames" \
+                    and isinstance(val, ast.Name) and env.get(val.id) == "future":
+                key, ty = self.ex(tgt.slice, env)
+                if ty != "N":
+                    self.refuse(s, "key of the pending table may be None")
+                return f"let eff := eff ++ [TRegister {key}] in\n" + go()
+            self.refuse(s, "assignment")
+        # ---- calls
+        if isinstance(s, ast.Expr) and isinstance(s.value, ast.Call):
+            c = s.value
+            fn = ast.unparse(c.func)
+            one = len(c.args) == 1 and not c.keywords
+            if fn == "self._write_frame" and one and isinstance(c.args[0], ast.Name) and env.get(c.args[0].id) == "frame":
+                return f"let eff := eff ++ [TWrite {c.args[0].id}] in\n" + go()
+            if fn == "self._change_ack_timeout" and one and "t_rx_ack" in self.writable:
+                return f"let t_rx_ack := py_change_ack_timeout t_rx_ack {self.as_float(c.args[0], env)} in\n" + go()
+            if fn == "self._enter_failed_state" and one and {"failed", "code"} <= self.writable:
+                code, ty = self.ex(c.args[0], env)
+                if ty != "N":
+                    self.refuse(s, "reset code")
+                return (f"let '(rx_seq, tx_seq, failed, code, eff_rx) := py__enter_failed_state_k (rx_seq, tx_seq, failed, code, []) {code} in\n"
+                        "let eff := eff ++ map TRx eff_rx in\n" + go())
+            if fn == "self._pending_data_frames.pop" and one:
+                key, ty = self.ex(c.args[0], env)
+                if ty != "N":
+                    self.refuse(s, "key of the pending table may be None")
+                return f"let eff := eff ++ [TPop {key}] in\n" + go()
+            self.refuse(s, "call with no modelled effect")
+        self.refuse(s)
+
+
+def gen_ash_tx_fn() -> str:
+    import asyncio
+    import dataclasses
+
+    import bellows.ash as ash
+    P = ash.AshProtocol
+    out = [TX_PRELUDE]
+    ghost = lambda removed: ("   not translated (feeds logging only): " + "; ".join(removed) + "\n") if removed else ""
+
+    # ---- __init__: the attributes the sender starts from --------------------------------------------------------------
+    init = _fn_ast(P.__dict__["__init__"])
+    attrs = {}
+    for s in init.body:
+        if isinstance(s, (ast.Assign, ast.AnnAssign)):
+            tgt = s.targets[0] if isinstance(s, ast.Assign) and len(s.targets) == 1 else getattr(s, "target", None)
+            if isinstance(tgt, ast.Attribute) and isinstance(tgt.value, ast.Name) and tgt.value.id == "self" and s.value is not None:
+                if tgt.attr in attrs:
+                    raise GenError("AshProtocol.__init__", f"self.{tgt.attr} assigned twice")
+                attrs[tgt.attr] = ast.unparse(s.value)
+    want = {"_send_data_frame_semaphore": "asyncio.Semaphore(TX_K)", "_pending_data_frames": "{}"}
+    for a, v in want.items():
+        if attrs.get(a) != v:
+            raise GenError("AshProtocol.__init__", f"self.{a} is no longer `{v}`")
+    if type(ash.TX_K) is not int or ash.TX_K != 1:
+        raise GenError("TX_K", "the sender model (one holder of the semaphore, one outstanding frame) needs TX_K = 1")
+    tr0 = TxTr("AshProtocol.__init__ (source)", ash, ())
+    ini = {}
+    for a, (var, ty) in TX_SELF.items():
+        if a not in attrs:
+            raise GenError("AshProtocol.__init__", f"self.{a} is not initialised")
+        e = ast.parse(attrs[a], mode="eval").body
+        ini[var] = tr0.as_float(e, {}) if ty == "float" else tr0.ex(e, {})[0]
+        if ty == "N" and tr0.ex(e, {})[1] != "N":
+            raise GenError("AshProtocol.__init__", f"self.{a}: not an integer")
+    if attrs.get("_ncp_state") not in ("NcpState.CONNECTED", "NcpState.FAILED") or attrs.get("_ncp_reset_code") != "None":
+        raise GenError("AshProtocol.__init__", "initial _ncp_state / _ncp_reset_code")
+    ini["failed"] = "true" if attrs["_ncp_state"].endswith("FAILED") else "false"
+    ini["code"] = str(NONE_CODE)
+    out.append("\n(* from the source of AshProtocol.__init__ (the semaphore is asyncio.Semaphore(TX_K) with TX_K = 1, the pending table {}) *)\n"
+               f"Definition py_tx_init : tx_state := ({', '.join(ini[v] for v in TX_STATE)}).\n\n")
+
+    # ---- _change_ack_timeout ---------------------------------------------------------------------------------------------
+    node = _fn_ast(P.__dict__["_change_ack_timeout"])
+    if [a.arg for a in node.args.args] != ["self", "new_value"] or node.args.vararg or node.args.kwarg or node.args.kwonlyargs:
+        raise GenError("AshProtocol._change_ack_timeout", "parameters")
+    body, removed = _tx_clean(node)
+    tr = TxTr("AshProtocol._change_ack_timeout (source)", ash, {"t_rx_ack"})
+    term = tr.block(body, {"new_value": "float"}, lambda env: "t_rx_ack")
+    out.append("(* from the source of AshProtocol._change_ack_timeout: the new value of self._t_rx_ack\n" + ghost(removed) + "*)\n"
+               "Definition py_change_ack_timeout (t_rx_ack new_value : float) : float :=\n" + textwrap.indent(term, "  ") + ".\n\n")
+
+    # ---- send_data: the frame handed to _send_data_frame ------------------------------------------------------------------
+    fields = []
+    for f in dataclasses.fields(ash.DataFrame):
+        ty = {"int": "N", "bool": "N", "bytes": "bytes"}.get(f.type if isinstance(f.type, str) else getattr(f.type, "__name__", "?"))
+        if ty is None:
+            raise GenError("DataFrame", f"field {f.name} of type {f.type}")
+        fields.append((f.name, ty))
+    if [t for _, t in fields] != ["N", "N", "N", "bytes"]:
+        raise GenError("DataFrame", f"fields {fields}: expected three integer header fields and the payload")
+    if ash.DataFrame.replace is not __import__("zigpy.types").types.BaseDataclassMixin.replace:
+        raise GenError("DataFrame.replace", "is no longer zigpy's BaseDataclassMixin.replace (dataclasses.replace)")
+    out.append(f"(* a DataFrame instance: ({', '.join(f for f, _ in fields)}); a header field is None until set *)\n"
+               "Definition py_dataframe := (option N * option N * option N * list N)%type.\n\n")
+    node = _fn_ast_async(P.__dict__["send_data"])
+    if [a.arg for a in node.args.args] != ["self", "data"]:
+        raise GenError("AshProtocol.send_data", "parameters")
+    body, _ = _tx_clean(node)
+    call = body[0].value.value if len(body) == 1 and isinstance(body[0], ast.Expr) and isinstance(body[0].value, ast.Await) else None
+    path = []
+    while isinstance(call, ast.Call) and len(call.args) == 1 and not call.keywords and ast.unparse(call.func) != "DataFrame":
+        path.append(ast.unparse(call.func))
+        call = call.args[0]
+    if path != ["asyncio.shield", "create_eager_task", "self._send_data_frame"] or not isinstance(call, ast.Call) or call.args:
+        raise GenError("AshProtocol.send_data", "expected `await asyncio.shield(create_eager_task(self._send_data_frame(DataFrame(..))))`")
+    kws = {k.arg: k.value for k in call.keywords}
+    if set(kws) != {f for f, _ in fields}:
+        raise GenError("AshProtocol.send_data", f"DataFrame keywords {sorted(kws, key=str)}")
+    vals = []
+    for f, ty in fields:
+        v = kws[f]
+        if ty == "bytes":
+            if not (isinstance(v, ast.Name) and v.id == "data"):
+                raise GenError("AshProtocol.send_data", f"payload `{ast.unparse(v)}`")
+            vals.append("data")
+        elif isinstance(v, ast.Constant) and v.value is None:
+            vals.append("None")
+        elif TxTr.is_int_lit(v):
+            vals.append(f"Some {v.value}")
+        else:
+            raise GenError("AshProtocol.send_data", f"header field `{f}={ast.unparse(v)}`")
+    out.append("(* from the source of AshProtocol.send_data: _send_data_frame runs as its own task on this frame; the caller awaits it\n"
+               "   under asyncio.shield (cancelling the caller does not cancel the send) *)\n"
+               f"Definition py_send_data_arg (data : list N) : py_dataframe := ({', '.join(vals)}).\n\n")
+
+    # ---- _send_data_frame --------------------------------------------------------------------------------------------------
+    where = "AshProtocol._send_data_frame (source)"
+    node = _fn_ast_async(P.__dict__["_send_data_frame"])
+    if [a.arg for a in node.args.args] != ["self", "frame"] or node.args.vararg or node.args.kwarg or node.args.kwonlyargs:
+        raise GenError(where, "parameters")
+    body, removed = _tx_clean(node)
+    bad = lambda what, n=None: GenError(where, what + (f": `{ast.unparse(n)[:100]}`" if n is not None else ""))
+    if len(body) != 1 or not isinstance(body[0], ast.AsyncWith) or len(body[0].items) != 1 or body[0].items[0].optional_vars is not None \
+            or ast.unparse(body[0].items[0].context_expr) != "self._send_data_frame_semaphore":
+        raise bad("expected the whole body under `async with self._send_data_frame_semaphore:`")
+    inner = list(body[0].body)
+    if not inner or not isinstance(inner[-1], ast.Try):
+        raise bad("expected local initialisations followed by try/finally under the semaphore")
+    pre_loop, outer = inner[:-1], inner[-1]
+    if outer.handlers or outer.orelse or not outer.finalbody or len(outer.body) != 1 or not isinstance(outer.body[0], ast.For):
+        raise bad("expected `try: for ...: ... finally: ...`", outer)
+    loop = outer.body[0]
+    it = loop.iter
+    if loop.orelse or not isinstance(loop.target, ast.Name) or not (isinstance(it, ast.Call) and ast.unparse(it.func) == "range"
+                                                                    and len(it.args) == 1 and not it.keywords):
+        raise bad("loop form", loop.iter)
+    attempt = loop.target.id
+    if not loop.body or not isinstance(loop.body[-1], ast.Try):
+        raise bad("the wait for the acknowledgement (try/except around the await) must end the loop body")
+    pre, wait = list(loop.body[:-1]), loop.body[-1]
+    for n in pre:
+        for x in ast.walk(n):
+            if isinstance(x, (ast.Await, ast.AsyncWith, ast.AsyncFor, ast.Try, ast.For, ast.While, ast.With, ast.Return)):
+                raise bad("suspension point / compound statement before the wait", n)
+    w = wait.body[0] if len(wait.body) == 1 else None
+    if wait.finalbody or not (isinstance(w, ast.AsyncWith) and len(w.items) == 1 and w.items[0].optional_vars is None
+                              and isinstance(w.items[0].context_expr, ast.Call) and ast.unparse(w.items[0].context_expr.func) == "asyncio_timeout"
+                              and len(w.items[0].context_expr.args) == 1 and not w.items[0].context_expr.keywords
+                              and len(w.body) == 1 and isinstance(w.body[0], ast.Expr) and isinstance(w.body[0].value, ast.Await)
+                              and isinstance(w.body[0].value.value, ast.Name)):
+        raise bad("expected `try: async with asyncio_timeout(..): await <future>`", wait)
+    timeout_expr, awaited = w.items[0].context_expr.args[0], w.body[0].value.value.id
+    for n in list(wait.handlers) + list(wait.orelse) + list(outer.finalbody):
+        for x in ast.walk(n):
+            if isinstance(x, (ast.Await, ast.AsyncWith, ast.AsyncFor, ast.Try, ast.For, ast.While, ast.With, ast.Return)) and x is not n:
+                raise bad("suspension point / compound statement after the wait", x)
+
+    tr = TxTr(where, ash, TX_STATE, fields)
+    count, cty = tr.ex(it.args[0], {})
+    if cty != "N":
+        raise bad("range() argument", it)
+
+    # how control leaves: the finally clause, then the semaphore
+    def leave(result):
+        def run(env):
+            tr.in_finally = True
+            try:
+                return tr.block(list(outer.finalbody), env, lambda e2: f"let eff := eff ++ [TRelease] in\n{result}")
+            finally:
+                tr.in_finally = False
+        return run
+    # locals at the loop head: the parameter and what is set before the loop (a raise there is outside the try: only the
+    # semaphore is released)
+    head = {}
+
+    def grab(env):
+        loc = {n: t for n, t in env.items() if not n.startswith("$")}
+        if head and head != loc:
+            raise bad(f"the locals at the loop head differ between paths: {head} / {loc}")
+        head.update(loc)
+        return "<HEAD>"
+    tr.on_raise = lambda exc, env: f"let eff := eff ++ [TRelease] in\nRRaise {tr.state()} eff {exc}"
+    pre_term = tr.block(pre_loop, {"frame": "frame"}, grab)
+    if pre_term.count("<HEAD>") != 1:
+        raise bad("the statements before the loop must reach it on exactly one path")
+    tr.on_raise = lambda exc, env: leave(f"RRaise {tr.state()} eff {exc}")(env)
+    tr.on_break = lambda env: leave(f"RReturn {tr.state()} eff")(env)
+    carried = [(n, t) for n, t in head.items() if t != "future"]
+    if any(t not in TX_COQTY for _, t in carried) or attempt in head or attempt in TX_RESERVED:
+        raise bad(f"locals before the loop: {carried}")
+    cargs = " ".join(n for n, _ in carried)
+    cdecl = " ".join(f"({n} : {TX_COQTY[t]})" for n, t in carried)
+
+    # ---- the segment from the loop head to the await
+    at_await = []
+
+    def suspend(env):
+        if env.get(awaited) != "future":
+            raise bad("the awaited name is not the future created in this attempt", wait)
+        loc = [(n, t) for n, t in env.items() if not n.startswith("$") and t != "future"]
+        if any(t not in TX_COQTY for _, t in loc):
+            raise bad(f"locals at the await: {loc}")
+        if at_await and at_await[0] != loc:
+            raise bad(f"the locals at the await differ between paths: {at_await[0]} / {loc}")
+        at_await[:] = [loc]
+        return (f"let eff := eff ++ [TAwaitAck {tr.as_float(timeout_expr, env)}] in\n"
+                f"RAwait {tr.state()} eff {' '.join(n for n, _ in loc)}")
+    env_head = dict(head, **{attempt: "N"})
+    begin = tr.block(pre, env_head, suspend)
+    if not at_await:
+        raise bad("no path reaches the await")
+    loc = at_await[0]
+    ldecl = " ".join(f"({n} : {TX_COQTY[t]})" for n, t in loc)
+
+    # ---- the segment from the await to the end of the iteration
+    def iter_end(env):
+        vals = []
+        for n, t in carried:
+            have = env.get(n)
+            if have == t:
+                vals.append(n)
+            elif (have, t) == ("N", "optN"):
+                vals.append(f"(Some {n})")
+            else:
+                raise bad(f"type of `{n}` at the end of the iteration ({have}) differs from its type at the loop head ({t})")
+        return f"RNext {tr.state()} eff {' '.join(vals)}"
+    handlers = []
+    for h in wait.handlers:
+        if h.name is not None or h.type is None:
+            raise bad("except clause form", h)
+        types = h.type.elts if isinstance(h.type, ast.Tuple) else [h.type]
+        classes = []
+        for t_ in types:
+            try:
+                c = eval(compile(ast.Expression(body=t_), "<except>", "eval"), dict(vars(ash)))
+            except Exception as exc:                                                         # noqa: BLE001
+                raise bad(f"cannot resolve the exception class ({exc})", t_)
+            if not (isinstance(c, type) and issubclass(c, BaseException)):
+                raise bad("not an exception class", t_)
+            classes.append(c)
+        handlers.append((classes, list(h.body), h))
+    outcomes = [("WNotAcked", ash.NotAcked, "XNotAcked"), ("WNcpFailure exc_code", ash.NcpFailure, "(XNcpFailure exc_code)"),
+                ("WTimeout", asyncio.TimeoutError, "XTimeout")]
+    used = set()
+    env_res = dict(loc)
+    arms = [f"| WAcked =>   (* else: *)\n{textwrap.indent(tr.block(list(wait.orelse), dict(env_res), iter_end), '    ')}"]
+    for pat, cls, exc in outcomes:
+        arm = None
+        for i, (classes, hbody, h) in enumerate(handlers):
+            if any(issubclass(cls, c) for c in classes):
+                used.add(i)
+                arm = (f"| {pat} =>   (* except {ast.unparse(h.type)}: *)\n"
+                       f"{textwrap.indent(tr.block(hbody, dict(env_res, **{'$cur': exc}), iter_end), '    ')}")
+                break
+        if arm is None:
+            arm = f"| {pat} =>   (* no except clause catches it *)\n{textwrap.indent(tr.on_raise(exc, dict(env_res)), '    ')}"
+        arms.append(arm)
+    for i, (_, _, h) in enumerate(handlers):
+        if i not in used:
+            raise bad("except clause that catches none of the outcomes of the wait (NotAcked / NcpFailure / TimeoutError)", h.type)
+    end = "match waited with\n" + "\n".join(arms) + "\nend"
+    exhausted = tr.on_break(dict(head))
+
+    out.append("(* effects: what a segment of _send_data_frame does to other objects, in order *)\n"
+               "Inductive tx_eff :=\n"
+               "| TRegister (frm_num : N)       (* self._pending_data_frames[frm_num] = <the new future> *)\n"
+               "| TWrite (f : py_dataframe)      (* self._write_frame(frame) (transport open) *)\n"
+               "| TAwaitAck (timeout : float)   (* async with asyncio_timeout(timeout): await <the new future>  -- the segment ends here *)\n"
+               "| TPop (frm_num : N)            (* self._pending_data_frames.pop(frm_num) *)\n"
+               "| TRelease                      (* leaving `async with self._send_data_frame_semaphore` *)\n"
+               "| TRx (e : py_eff).             (* a call made by an inlined method of gen/GenAshRxFn.v *)\n\n"
+               "(* how a segment ends; the locals that live on are part of the result *)\n"
+               "Inductive tx_result :=\n"
+               f"| RAwait (s : tx_state) (eff : list tx_eff) {ldecl}    (* suspended in the await *)\n"
+               f"| RNext (s : tx_state) (eff : list tx_eff) {cdecl}    (* the loop body ran to its end *)\n"
+               "| RReturn (s : tx_state) (eff : list tx_eff)              (* the coroutine returned *)\n"
+               "| RRaise (s : tx_state) (eff : list tx_eff) (e : tx_exc).  (* the coroutine raised *)\n\n")
+    out.append(f"(* from the source of AshProtocol._send_data_frame.  time.monotonic() is `now` (one value per segment: no time passes\n"
+               "   between two suspension points); a raise / break runs the finally clause and releases the semaphore.\n" + ghost(removed) +
+               f"   `for {attempt} in range({ast.unparse(it.args[0])})`: *)\n"
+               f"Definition py_send_first_attempt : option N := if 0 <? {count} then Some 0 else None.\n"
+               f"Definition py_send_next_attempt ({attempt} : N) : option N := if {attempt} + 1 <? {count} then Some ({attempt} + 1) else None.\n\n"
+               "(* the loop ran out of attempts without break / raise: finally clause, semaphore, return *)\n"
+               f"Definition py_send_loop_exhausted (s : tx_state) (eff : list tx_eff) {cdecl} : tx_result :=\n"
+               f"  let '({TX_S}) := s in\n{textwrap.indent(exhausted, '  ')}.\n\n"
+               "(* one iteration, from the loop head to the await *)\n"
+               f"Definition py_send_attempt_begin (s : tx_state) (eff : list tx_eff) {cdecl} ({attempt} : N) (now : float) : tx_result :=\n"
+               f"  let '({TX_S}) := s in\n{textwrap.indent(begin, '  ')}.\n\n"
+               "(* the same iteration from the resumption of the await (s: the attributes as they are then) to its end *)\n"
+               f"Definition py_send_attempt_end (s : tx_state) {ldecl} (now : float) (waited : tx_waited) : tx_result :=\n"
+               f"  let '({TX_S}) := s in\n  let eff := @nil tx_eff in\n{textwrap.indent(end, '  ')}.\n\n")
+    first = (f"match py_send_first_attempt with\n| Some {attempt} => py_send_attempt_begin {tr.state()} eff {cargs} {attempt} now\n"
+             f"| None => py_send_loop_exhausted {tr.state()} eff {cargs}\nend")
+    out.append("(* from the grant of the semaphore to the first await *)\n"
+               "Definition py_send_enter (s : tx_state) (frame : py_dataframe) (now : float) : tx_result :=\n"
+               f"  let '({TX_S}) := s in\n  let eff := @nil tx_eff in\n{textwrap.indent(pre_term.replace('<HEAD>', first), '  ')}.\n\n"
+               "(* from the resumption of the await to the next suspension point or the end of the coroutine: the rest of this\n"
+               "   iteration and, when the loop goes on, the next one up to its await *)\n"
+               f"Definition py_send_resume (s : tx_state) {ldecl} (now : float) (waited : tx_waited) : tx_result :=\n"
+               f"  match py_send_attempt_end s {' '.join(n for n, _ in loc)} now waited with\n"
+               f"  | RNext s eff {cargs} =>\n"
+               f"      match py_send_next_attempt {attempt} with\n"
+               f"      | Some {attempt} => py_send_attempt_begin s eff {cargs} {attempt} now\n"
+               f"      | None => py_send_loop_exhausted s eff {cargs}\n      end\n"
+               "  | r => r\n  end.\n")
+    return "".join(out)
+
+
+
+
+# ==================================================================================================
+# ControllerApplication.send_packet (bellows/zigbee/application.py), C12: the coroutine from the concurrency limiter
+# on, in continuation style.  Every suspension point resumes as an outcome parameter says (ol: the limiter; otop: awaits
+# outside the retry loop; o <attempt>: the awaits of one loop iteration; oc: the wait for the confirmation); `with` /
+# `async with` scopes are a stack of exit effects appended on EVERY way out (normal end, break, return, raise, an
+# exception thrown in at an await); the retry loop is one emitted body function folded by py_for_else (Python's
+# for / else: the else clause runs iff the items were exhausted without `break`).
+# ==================================================================================================
+SP_PRELUDE = """(* GENERATED by harness/pysrc.py from the SOURCE TEXT of ControllerApplication.send_packet
+   (bellows/zigbee/application.py) -- do not edit *)
+From Coq Require Import String ZArith NArith List Bool.
+Import ListNotations.
+Require Import BV.gen.GenApp BV.gen.GenStatus BV.model.Status.
+Open Scope N_scope.
+
+(* ---- fixed vocabulary (not derived from the source) ---------------------------------------------------------------
+   what the code after the limiter reads of its inputs: packet.dst.addr_mode, packet.dst.address, the truth value of
+   packet.extended_timeout, `device is not None`, `packet.source_route is not None` *)
+Record sp_packet := { p_addr_mode : N; p_dst_address : N; p_extended_timeout : bool; p_device_known : bool;
+                      p_has_source_route : bool }.
+Inductive sp_exc :=
+| XDeliveryError        (* zigpy.exceptions.DeliveryError *)
+| XTimeoutError         (* raised by asyncio_timeout when its deadline passes *)
+| XDuplicate            (* Requests.new: the key is already registered *)
+| XUnboundLocal         (* a local read before any assignment *)
+| XThrown.              (* whatever is thrown into the coroutine at an await: CancelledError, an error of the awaited command *)
+Inductive sp_res := SpReturn | SpRaise (e : sp_exc).
+(* effects, in program order *)
+Inductive sp_eff :=
+| ELimiterAcquire | ELimiterRelease            (* async with self._limit_concurrency(..): entered / left *)
+| EGetSequence                                 (* self.get_sequence() *)
+| EPendingNew (key : N * N)                    (* self._pending.new(key): entry registered *)
+| EPendingRemove (key : N * N)                 (* the `with` block of that entry is left: entry removed *)
+| ELockAcquire | ELockRelease                  (* async with self._req_lock: entered / left *)
+| ECmd (name : string) (args : list (string * N))   (* await self._ezsp.<name>(..) issued (keyword arguments that are
+                                                  the destination address or the message tag are kept) *)
+| ESleep (delay : N * N)                       (* await asyncio.sleep(delay), seconds as (numerator, denominator) *)
+| EAwaitConfirm (key : N * N) (timeout : N).   (* async with asyncio_timeout(timeout): .. = await <entry>.result *)
+(* how a suspension point resumes *)
+Inductive sp_aw := AwOk | AwThrow.
+Inductive sp_sent := SentStatus (status : N) | SentThrow.
+Inductive sp_conf := ConfResult (send_status : N) | ConfTimeout | ConfThrow.
+(* the suspension points of one loop iteration (commands by name: a name is awaited at most once per iteration, checked) *)
+Record sp_attempt := { o_lock : sp_aw; o_cmd : string -> sp_aw; o_send : sp_sent; o_sleep : sp_aw }.
+
+Definition sp_mem_N (x : N) (l : list N) : bool := existsb (N.eqb x) l.
+(* t.sl_Status.from_ember_status: model/Status.v mirrors it (pinned by its AST in gen.py); fam is the enum the argument
+   belongs to *)
+Definition py_from_ember_status (fam : family) (status : N) : N := normalise fam status.
+
+(* Python's for / else over a list, the body returning how it ended *)
+Inductive sp_flow :=
+| FNext (status : option N) (eff : list sp_eff)       (* end of the body / continue *)
+| FBreak (status : option N) (eff : list sp_eff)
+| FExit (r : sp_res) (eff : list sp_eff).             (* return / raise, scopes inside the body already left *)
+Inductive sp_loop :=
+| LElse (status : option N) (eff : list sp_eff)       (* items exhausted *)
+| LBroke (status : option N) (eff : list sp_eff)
+| LExit (r : sp_res) (eff : list sp_eff).
+Fixpoint py_for_else {X : Type} (body : X -> option N -> list sp_eff -> sp_flow) (items : list X)
+    (status : option N) (eff : list sp_eff) : sp_loop :=
+  match items with
+  | [] => LElse status eff
+  | x :: items' =>
+      match body x status eff with
+      | FNext status eff => py_for_else body items' status eff
+      | FBreak status eff => LBroke status eff
+      | FExit r eff => LExit r eff
+      end
+  end.
+Fixpoint py_enumerate_from {X : Type} (k : N) (l : list X) : list (N * X) :=
+  match l with [] => [] | x :: l' => (k, x) :: py_enumerate_from (k + 1) l' end.
+Definition py_enumerate {X : Type} (l : list X) : list (N * X) := py_enumerate_from 0 l.
+
+"""
+
+
+class SpTr:
+    PACKET_INTS = {"packet.dst.addr_mode": "p_addr_mode p", "packet.dst.address": "p_dst_address p"}
+    PACKET_BOOLS = {"packet.extended_timeout": "p_extended_timeout p"}
+    NOT_NONE = {"device": "p_device_known p", "packet.source_route": "p_has_source_route p"}
+    LIMITER = "self._limit_concurrency(priority=packet.priority)"
+
+    def __init__(self, where, ns):
+        import bellows.types as bt
+        import zigpy.exceptions
+        import zigpy.types as zt
+        self.where, self.ns = where, ns
+        self.bt, self.zt, self.zexc = bt, zt, zigpy.exceptions
+        self.defs = []            # definitions emitted before the main function (the loop body)
+        self.busy = None          # the tuple of the membership test on the enqueue status: [(member name, value)]
+        self.skipped = []         # what was left out, listed in the emitted comment
+        self.seen_seq = self.seen_pending = self.seen_loop = self.seen_confirm = False
+
+    def refuse(self, node, why="unsupported construct"):
+        src = ast.unparse(node) if isinstance(node, ast.AST) else str(node)
+        raise GenError(self.where, f"{why}: `{src[:110]}`")
+
+    def skip(self, what):
+        if what not in self.skipped:
+            self.skipped.append(what)
+
+    # ---- leaving ------------------------------------------------------------------------------------
+    @staticmethod
+    def unwind(hs):
+        return "".join(f"let eff := eff ++ [{h}] in\n" for h in reversed(hs))
+
+    def leave(self, res, hs, env):
+        return self.unwind(hs) + (f"FExit {res} eff" if env["loop"] else f"(eff, {res})")
+
+    # ---- expressions --------------------------------------------------------------------------------
+    def member(self, e):
+        """(enum class, name, value) of a dotted name that is a member of an integer enum of the live modules"""
+        if not isinstance(e, ast.Attribute):
+            return None
+        obj = _resolve(self.ns, e)
+        if obj is _MISSING or not isinstance(obj, __import__("enum").Enum):
+            return None
+        try:
+            return type(obj), obj.name, int(obj)
+        except (TypeError, ValueError):
+            return None
+
+    def ex_int(self, e, env, want_enum=None):
+        src = ast.unparse(e)
+        if isinstance(e, ast.Constant) and isinstance(e.value, int) and not isinstance(e.value, bool) and e.value >= 0:
+            return str(e.value)
+        if isinstance(e, ast.Name):
+            if e.id == "status":
+                if not env["sv"]:
+                    raise GenError(self.where, "internal: status read without the unbound-local test")
+                return "status_v"
+            if e.id in env["ints"]:
+                return e.id
+            self.refuse(e, "unknown integer variable")
+        if src in self.PACKET_INTS:
+            return self.PACKET_INTS[src]
+        if src == "len(RETRY_DELAYS)" and isinstance(self.ns.get("RETRY_DELAYS"), list):
+            return "N.of_nat (List.length RETRY_DELAYS)"
+        m = self.member(e)
+        if m is not None and m[2] >= 0:
+            return f"{m[2]} (* {_cmt(src)} *)"
+        if isinstance(e, ast.Call) and len(e.args) == 1 and not e.keywords and isinstance(e.args[0], ast.Name) \
+                and e.args[0].id in env["confirmed"] \
+                and getattr(_resolve(self.ns, e.func), "__func__", None) is self.bt.sl_Status.from_ember_status.__func__:
+            return f"py_from_ember_status fam {e.args[0].id}"
+        self.refuse(e, "integer expression")
+
+    def is_intlike(self, e, env):
+        try:
+            self.ex_int(e, dict(env, sv=True))
+            return True
+        except GenError:
+            return False
+
+    def cond(self, t, env):
+        src = ast.unparse(t)
+        if isinstance(t, ast.UnaryOp) and isinstance(t.op, ast.Not):
+            return f"negb ({self.cond(t.operand, env)})"
+        if isinstance(t, ast.BoolOp):
+            op = " && " if isinstance(t.op, ast.And) else " || "
+            return "(" + op.join(f"({self.cond(v, env)})" for v in t.values) + ")"
+        if src in self.PACKET_BOOLS:
+            return self.PACKET_BOOLS[src]
+        if isinstance(t, ast.Compare) and len(t.ops) == 1:
+            a, op, b = t.left, t.ops[0], t.comparators[0]
+            if isinstance(op, (ast.Is, ast.IsNot)) and isinstance(b, ast.Constant) and b.value is None:
+                k = ast.unparse(a)
+                if k not in self.NOT_NONE:
+                    self.refuse(t, "test against None")
+                return self.NOT_NONE[k] if isinstance(op, ast.IsNot) else f"negb ({self.NOT_NONE[k]})"
+            if isinstance(op, (ast.In, ast.NotIn)):
+                if not (isinstance(a, ast.Name) and a.id == "status" and isinstance(b, (ast.Tuple, ast.List, ast.Set))):
+                    self.refuse(t, "membership test")
+                ms = [self.member(x) for x in b.elts]
+                if not ms or any(m is None or m[0] is not self.bt.sl_Status for m in ms):
+                    self.refuse(t, "membership in something other than a tuple of sl_Status members")
+                busy = [(m[1], m[2]) for m in ms]
+                if self.busy is not None and self.busy != busy:
+                    self.refuse(t, "a second, different status tuple")
+                self.busy = busy
+                c = f"sp_mem_N {self.ex_int(a, env)} (map snd py_busy_statuses)"
+                return c if isinstance(op, ast.In) else f"negb ({c})"
+            ops = {ast.Eq: ("{a} =? {b}", False), ast.NotEq: ("{a} =? {b}", True), ast.Lt: ("{a} <? {b}", False),
+                   ast.LtE: ("{a} <=? {b}", False), ast.Gt: ("{b} <? {a}", False), ast.GtE: ("{b} <=? {a}", False)}
+            if type(op) in ops:
+                fmt, neg = ops[type(op)]
+                c = fmt.format(a=f"({self.ex_int(a, env)})", b=f"({self.ex_int(b, env)})")
+                return f"negb ({c})" if neg else c
+        self.refuse(t, "condition")
+
+    @staticmethod
+    def reads_status(t):
+        return any(isinstance(n, ast.Name) and n.id == "status" and isinstance(n.ctx, ast.Load) for n in ast.walk(t))
+
+    # ---- awaits -------------------------------------------------------------------------------------
+    def ezsp_call(self, call, env):
+        """await self._ezsp.<name>(keyword arguments) -> (name, Gallina list of the kept arguments)"""
+        if not (isinstance(call, ast.Call) and isinstance(call.func, ast.Attribute) and ast.unparse(call.func.value) == "self._ezsp"
+                and not call.args and all(k.arg for k in call.keywords)):
+            self.refuse(call, "awaited call")
+        name = call.func.attr
+        if name in env["awaited"]:
+            self.refuse(call, "the same command awaited twice on one path of an iteration")
+        kept = []
+        for k in call.keywords:
+            if self.is_intlike(k.value, env) and not self.reads_status(k.value):
+                kept.append(f'("{k.arg}"%string, {self.ex_int(k.value, env)})')
+            else:
+                self.skip(f"{name}({k.arg}={_cmt(ast.unparse(k.value))})")
+        return name, "[" + "; ".join(kept) + "]"
+
+    # ---- statements ---------------------------------------------------------------------------------
+    def stmts(self, body, hs, env):
+        ind = lambda txt, k=2: textwrap.indent(txt, " " * k)
+        O = f"(o {env['loop']['attempt']})" if env["loop"] else "otop"
+        if not body:
+            if hs:
+                raise GenError(self.where, "internal: scope stack not empty at the end of a block")
+            return "FNext status eff" if env["loop"] else "(eff, SpReturn)"
+        s, rest = body[0], body[1:]
+        go = lambda env2=None: self.stmts(rest, hs, env2 or env)
+        if isinstance(s, _Pop):
+            return f"let eff := eff ++ [{hs[-1]}] in\n" + self.stmts(rest, hs[:-1], env)
+        if isinstance(s, ast.Pass):
+            return go()
+        # ---- ways out
+        if isinstance(s, ast.Return):
+            if s.value is not None:
+                self.refuse(s, "return value")
+            return self.leave("SpReturn", hs, env)
+        if isinstance(s, ast.Raise):
+            c = s.exc
+            cls = _resolve(self.ns, c.func) if isinstance(c, ast.Call) else _MISSING
+            if s.cause is not None or cls is not self.zexc.DeliveryError:
+                self.refuse(s, "raise")
+            self.skip("arguments of DeliveryError(..)")
+            return self.leave("(SpRaise XDeliveryError)", hs, env)
+        if isinstance(s, ast.Break):
+            if not env["loop"]:
+                self.refuse(s, "break outside the loop")
+            return self.unwind(hs) + "FBreak status eff"
+        if isinstance(s, ast.Continue):
+            if not env["loop"]:
+                self.refuse(s, "continue outside the loop")
+            return self.unwind(hs) + "FNext status eff"
+        # ---- if
+        if isinstance(s, ast.If):
+            if self.reads_status(s.test) and not env["sv"]:
+                inner = self.stmts(body, hs, dict(env, sv=True))
+                return (f"match status with\n| None =>   (* UnboundLocalError *)\n{ind(self.leave('(SpRaise XUnboundLocal)', hs, env), 4)}\n"
+                        f"| Some status_v =>\n{ind(inner, 4)}\nend")
+            a = self.stmts(list(s.body) + rest, hs, env)
+            b = self.stmts(list(s.orelse) + rest, hs, env)
+            return f"if {self.cond(s.test, env)} then\n{ind(a)}\nelse\n{ind(b)}"
+        # ---- scopes
+        if isinstance(s, ast.AsyncWith) and len(s.items) == 1 and s.items[0].optional_vars is None:
+            ce = s.items[0].context_expr
+            src = ast.unparse(ce)
+            if src == self.LIMITER and not env["loop"] and "ELimiterRelease" not in hs:
+                inner = self.stmts(list(s.body) + [_Pop()] + rest, hs + ("ELimiterRelease",), env)
+                return (f"match ol with\n| AwThrow =>\n{ind(self.leave('(SpRaise XThrown)', hs, env), 4)}\n| AwOk =>\n"
+                        f"{ind('let eff := eff ++ [ELimiterAcquire] in' + chr(10) + inner, 4)}\nend")
+            if src == "self._req_lock":
+                if "ELockRelease" in hs or env["locked"]:
+                    self.refuse(s, "the request lock taken while it is held (asyncio.Lock is not re-entrant)")
+                inner = self.stmts(list(s.body) + [_Pop()] + rest, hs + ("ELockRelease",), env)
+                return (f"match o_lock {O} with\n| AwThrow =>\n{ind(self.leave('(SpRaise XThrown)', hs, env), 4)}\n| AwOk =>\n"
+                        f"{ind('let eff := eff ++ [ELockAcquire] in' + chr(10) + inner, 4)}\nend")
+            if isinstance(ce, ast.Call) and ast.unparse(ce.func) == "asyncio_timeout" and len(ce.args) == 1 and not ce.keywords:
+                if env["loop"] or self.seen_confirm:
+                    self.refuse(s, "timeout block inside the loop / a second one")
+                a0 = ce.args[0]
+                if not (isinstance(a0, ast.Name) and a0.id == "APS_ACK_TIMEOUT" and isinstance(self.ns.get("APS_ACK_TIMEOUT"), int)):
+                    self.refuse(s, "timeout value (expected the module constant APS_ACK_TIMEOUT)")
+                if len(s.body) != 1 or env["req"] is None:
+                    self.refuse(s, "body of the timeout block")
+                w = s.body[0]
+                ok = isinstance(w, ast.Assign) and len(w.targets) == 1 and isinstance(w.value, ast.Await) \
+                    and ast.unparse(w.value.value) == f"{env['req'][0]}.result"
+                names = PhTr._names(w.targets[0], 2) if ok else None
+                if names is None or names[0] in ("status", "_") or names[0] in env["ints"]:
+                    self.refuse(s, "body of the timeout block (expected `<status>, _ = await <entry>.result`)")
+                self.seen_confirm = True
+                env2 = dict(env, confirmed=env["confirmed"] + [names[0]])
+                return (f"let eff := eff ++ [EAwaitConfirm {env['req'][1]} APS_ACK_TIMEOUT] in\nmatch oc with\n"
+                        f"| ConfThrow =>\n{ind(self.leave('(SpRaise XThrown)', hs, env), 4)}\n"
+                        f"| ConfTimeout =>\n{ind(self.leave('(SpRaise XTimeoutError)', hs, env), 4)}\n"
+                        f"| ConfResult {names[0]} =>\n{ind(self.stmts(rest, hs, env2), 4)}\nend")
+        if isinstance(s, ast.With) and len(s.items) == 1:
+            ce, var = s.items[0].context_expr, s.items[0].optional_vars
+            if isinstance(ce, ast.Call) and ast.unparse(ce.func) == "self._pending.new" and len(ce.args) == 1 and not ce.keywords \
+                    and isinstance(ce.args[0], ast.Name) and ce.args[0].id in env["pairs"] and isinstance(var, ast.Name) \
+                    and not env["loop"] and env["req"] is None:
+                key = ce.args[0].id
+                self.seen_pending = True
+                inner = self.stmts(list(s.body) + [_Pop()] + rest, hs + (f"EPendingRemove {key}",), dict(env, req=(var.id, key)))
+                return (f"if pending_has {key} then   (* Requests.new raises: the key is registered already *)\n"
+                        f"{ind(self.leave('(SpRaise XDuplicate)', hs, env))}\nelse\n"
+                        f"{ind(f'let eff := eff ++ [EPendingNew {key}] in' + chr(10) + inner)}")
+        # ---- the retry loop
+        if isinstance(s, ast.For):
+            names = PhTr._names(s.target, 2)
+            if env["loop"] or self.seen_loop or names is None or ast.unparse(s.iter) != "enumerate(RETRY_DELAYS)" \
+                    or not isinstance(self.ns.get("RETRY_DELAYS"), list) or any(n in env["ints"] + env["pairs"] + ["status", "p", "o"] for n in names):
+                self.refuse(s, "loop header (expected one `for <i>, <delay> in enumerate(RETRY_DELAYS)`)")
+            self.seen_loop = True
+            params = [("p", "sp_packet")] + [(n, "N") for n in env["ints"]] + [(n, "N * N") for n in env["pairs"]]
+            benv = dict(env, loop={"attempt": names[0], "delay": names[1]}, ints=env["ints"] + [names[0]], pairs=env["pairs"] + [names[1]],
+                        awaited=frozenset(), sent=False, sv=False, locked=env["locked"] or "ELockRelease" in hs, req=None)
+            bterm = self.stmts(list(s.body), (), benv)
+            self.defs.append(
+                "(* the body of `for " + _cmt(ast.unparse(s.target)) + " in " + _cmt(ast.unparse(s.iter)) + "`: one attempt *)\n"
+                "Definition py_send_attempt " + " ".join(f"({n} : {t})" for n, t in params)
+                + " (o : N -> sp_attempt)\n    (item : N * (N * N)) (status : option N) (eff : list sp_eff) : sp_flow :=\n"
+                + f"  let '({names[0]}, {names[1]}) := item in\n" + ind(bterm) + ".\n\n")
+            call = "py_for_else (py_send_attempt " + " ".join(n for n, _ in params) + " o) (py_enumerate RETRY_DELAYS) status eff"
+            env_after = dict(env, sv=False)
+            return (f"match {call} with\n| LExit r eff =>\n{ind(self.unwind(hs) + '(eff, r)', 4)}\n"
+                    f"| LElse status eff =>   (* the else clause of the loop *)\n{ind(self.stmts(list(s.orelse) + rest, hs, env_after), 4)}\n"
+                    f"| LBroke status eff =>\n{ind(self.stmts(rest, hs, env_after), 4)}\nend")
+        # ---- assignments
+        if isinstance(s, ast.Assign) and len(s.targets) == 1:
+            tgt, val = s.targets[0], s.value
+            v = ast.unparse(val)
+            if isinstance(tgt, ast.Name) and v == "self.get_sequence()" and not env["loop"] and not self.seen_seq \
+                    and tgt.id not in env["ints"] + env["pairs"] + ["status", "p", "o"]:
+                self.seen_seq = True
+                return (f"let eff := eff ++ [EGetSequence] in\nlet {tgt.id} := next_sequence in\n"
+                        + go(dict(env, ints=env["ints"] + [tgt.id])))
+            if isinstance(tgt, ast.Name) and isinstance(val, ast.Tuple) and len(val.elts) == 2 and not env["loop"] \
+                    and tgt.id not in env["ints"] + env["pairs"] + ["status", "p", "o"]:
+                a, b = (self.ex_int(x, env) for x in val.elts)
+                return f"let {tgt.id} := ({a}, {b}) in\n" + go(dict(env, pairs=env["pairs"] + [tgt.id]))
+            names = PhTr._names(tgt, 2)
+            if names == ["status", "_"] and isinstance(val, ast.Await):
+                if env["sent"]:
+                    self.refuse(s, "a second status-returning command on one path of an iteration")
+                name, args = self.ezsp_call(val.value, env)
+                env2 = dict(env, awaited=env["awaited"] | {name}, sent=True, sv=True)
+                return (f'let eff := eff ++ [ECmd "{name}"%string {args}] in\nmatch o_send {O} with\n'
+                        f"| SentThrow =>\n{ind(self.leave('(SpRaise XThrown)', hs, env), 4)}\n"
+                        f"| SentStatus status_v =>\n{ind('let status := Some status_v in' + chr(10) + go(env2), 4)}\nend")
+        # ---- awaits as statements
+        if isinstance(s, ast.Expr) and isinstance(s.value, ast.Await):
+            c = s.value.value
+            if isinstance(c, ast.Call) and ast.unparse(c.func) == "asyncio.sleep" and len(c.args) == 1 and not c.keywords \
+                    and isinstance(c.args[0], ast.Name) and c.args[0].id in env["pairs"] and _resolve(self.ns, c.func) is __import__("asyncio").sleep:
+                return (f"let eff := eff ++ [ESleep {c.args[0].id}] in\nmatch o_sleep {O} with\n"
+                        f"| AwThrow =>\n{ind(self.leave('(SpRaise XThrown)', hs, env), 4)}\n| AwOk =>\n{ind(go(), 4)}\nend")
+            name, args = self.ezsp_call(c, env)
+            env2 = dict(env, awaited=env["awaited"] | {name})
+            return (f'let eff := eff ++ [ECmd "{name}"%string {args}] in\nmatch o_cmd {O} "{name}"%string with\n'
+                    f"| AwThrow =>\n{ind(self.leave('(SpRaise XThrown)', hs, env), 4)}\n| AwOk =>\n{ind(go(env2), 4)}\nend")
+        self.refuse(s)
+
+
+def gen_sendpacket_fn() -> str:
+    import asyncio
+    import bellows.types as bt
+    import bellows.zigbee.application as A
+    import zigpy.types as zt
+    C = A.ControllerApplication
+    ns = vars(A)
+    where = "ControllerApplication.send_packet (source)"
+    node = _fn_ast_async(C.__dict__["send_packet"])
+    if [a.arg for a in node.args.args] != ["self", "packet"] or node.args.vararg or node.args.kwarg or node.args.kwonlyargs:
+        raise GenError(where, "signature is not (self, packet)")
+    body = list(_StripLogs().visit(node).body)
+    # the two objects the scopes are about
+    init_src = inspect.getsource(C.__init__)
+    for need in ("self._pending = zigpy.util.Requests()", "self._req_lock = asyncio.Lock()"):
+        if need not in init_src:
+            raise GenError("ControllerApplication.__init__", f"`{need}` not found")
+    if ns.get("asyncio") is not asyncio:
+        raise GenError(where, "`asyncio` is not the asyncio module")
+    # ---- the part before the limiter: not translated; it must not touch what the property speaks of -----------------
+    cut = [i for i, s in enumerate(body) if isinstance(s, ast.AsyncWith) and len(s.items) == 1
+           and ast.unparse(s.items[0].context_expr) == SpTr.LIMITER]
+    if len(cut) != 1 or cut[0] != len(body) - 1:
+        raise GenError(where, f"expected `async with {SpTr.LIMITER}:` as the last statement of the function")
+    pre = body[:cut[0]]
+    for s in pre:
+        for n in ast.walk(s):
+            if isinstance(n, (ast.Await, ast.AsyncWith, ast.AsyncFor, ast.Yield, ast.YieldFrom, ast.Return, ast.With)):
+                raise GenError(where, f"suspension point / scope / return before the limiter: `{ast.unparse(s)[:100]}`")
+            if isinstance(n, ast.Attribute) and ast.unparse(n) in ("self._pending", "self._req_lock", "self.get_sequence", "self._ezsp",
+                                                                    "self._limit_concurrency"):
+                raise GenError(where, f"`{ast.unparse(n)}` used before the limiter: `{ast.unparse(s)[:100]}`")
+    # inside the limiter the inputs are not re-bound (so they are the same on every attempt)
+    for n in ast.walk(body[cut[0]]):
+        if isinstance(n, ast.Name) and isinstance(n.ctx, (ast.Store, ast.Del)) and n.id in ("packet", "device", "self"):
+            raise GenError(where, f"`{n.id}` is assigned inside the limiter block")
+        if isinstance(n, (ast.Lambda, ast.FunctionDef, ast.AsyncFunctionDef, ast.NamedExpr, ast.Try, ast.While, ast.Global, ast.Nonlocal)):
+            raise GenError(where, f"unsupported construct inside the limiter block: `{ast.unparse(n)[:100]}`")
+    tr = SpTr(where, ns)
+    env = {"loop": None, "sv": False, "awaited": frozenset(), "sent": False, "req": None, "ints": [], "pairs": [], "confirmed": [],
+           "locked": False}
+    term = tr.stmts([body[cut[0]]], (), env)
+    for flag, what in ((tr.seen_seq, "self.get_sequence()"), (tr.seen_pending, "with self._pending.new(..)"),
+                       (tr.seen_loop, "the retry loop"), (tr.seen_confirm, "the wait for the confirmation")):
+        if not flag:
+            raise GenError(where, f"{what} not found")
+    if tr.busy is None:
+        raise GenError(where, "no membership test of the enqueue status in a tuple of sl_Status members")
+    modes = "".join(f"Definition AddrMode_{m.name} : N := {int(m)}.\n" for m in zt.AddrMode)
+    out = [SP_PRELUDE,
+           "(* zigpy.types.AddrMode, from the live module *)\n" + modes + "\n",
+           "(* the tuple of the test `status [not] in (..)`: members named by the AST, values from the live bellows.types.sl_Status *)\n"
+           "Definition py_busy_statuses : list (string * N) :=\n  [" + "; ".join(f'("{n}"%string, {v})' for n, v in tr.busy) + "].\n\n",
+           "(* NOT translated: the statements before the limiter (they contain no suspension point, no `with`, no return and do not\n"
+           "   mention self._pending / self._req_lock / self.get_sequence / self._ezsp -- checked):\n"
+           + "".join("     " + _cmt(ast.unparse(s).split("\n")[0][:110]) + "\n" for s in pre)
+           + "   and: log calls; " + "; ".join(tr.skipped) + " *)\n\n"]
+    out += tr.defs
+    out.append("(* from the source of ControllerApplication.send_packet, from `async with " + _cmt(SpTr.LIMITER) + "` on.\n"
+               "   fam: the enum the status delivered by the confirmation belongs to; next_sequence: what self.get_sequence() returns;\n"
+               "   pending_has k: k in self._pending at the call of new; ol / otop / o i / oc: how the limiter, the awaits outside the loop,\n"
+               "   the awaits of iteration i and the wait for the confirmation resume.  Result: the effects in order, how the call ends *)\n"
+               "Definition py_send_packet (fam : family) (p : sp_packet) (next_sequence : N) (pending_has : N * N -> bool)\n"
+               "    (ol : sp_aw) (otop : sp_attempt) (o : N -> sp_attempt) (oc : sp_conf) : list sp_eff * sp_res :=\n"
+               "  let eff := @nil sp_eff in\n  let status := @None N in\n" + textwrap.indent(term, "  ") + ".\n")
+    return "".join(out)
+
+
+
+
+# ==================================================================================================
+# Gateway, the ASYNCHRONOUS half (bellows/uart.py): reset, wait_for_startup_reset, send_data and the done-callback
+# _reset_cleanup; AshProtocol._write_frame / send_reset (bellows/ash.py).  Every coroutine is cut at its awaits into
+# segment functions over the joint control state GwTr uses: `<name>_begin` runs from the call to the first suspension (or
+# to the end), `<name>_resume_<k>` from the k-th await (source order) to the next suspension (or to the end); how the
+# coroutine is woken (the awaited future is done | the timeout of the enclosing `async with asyncio_timeout(..)` expired |
+# the task was cancelled) is the argument `w`.  try/finally and the timeout context are resolved structurally: every way
+# out of a block (normal, return, exception) runs the finally body; an exception leaving the timeout block goes through
+# `timeout_exit`.
+# ==================================================================================================
+GA_STATE = list(GW_STATE)
+GA_ST = "(" + ", ".join(GA_STATE) + ")"
+GA_FUTNAME = {"_reset_future": "FutReset", "_startup_reset_future": "FutStartup"}
+GA_CREATE = ("asyncio.get_event_loop().create_future()", "asyncio.get_running_loop().create_future()")
+GA_OWNER = {"_reset_future": "reset", "_startup_reset_future": "wait_for_startup_reset"}
+
+GA_PRELUDE = """(* GENERATED by harness/pysrc.py from the SOURCE TEXT of the coroutines of Gateway (bellows/uart.py: reset,
+   wait_for_startup_reset, send_data; the done-callback _reset_cleanup) and of AshProtocol._write_frame / send_reset
+   (bellows/ash.py) -- do not edit *)
+From Coq Require Import NArith List Bool.
+Import ListNotations.
+Require Import BV.gen.GenAsh BV.gen.GenAshFn BV.model.AshCodec BV.model.Gateway.
+Open Scope N_scope.
+
+(* ---- fixed vocabulary: asyncio's contract, NOT derived from the source ------------------------------------------------
+   A coroutine runs from one suspension point to the next without interleaving.  `await f` on a future that is done
+   does not suspend; on a pending future the coroutine is suspended until asyncio wakes it: because the future became
+   done (WkFuture), because the timeout of the enclosing `async with asyncio_timeout(..)` expired (WkTimeout) or because
+   the task was cancelled (WkCancel).  In the last two cases asyncio has cancelled the awaited future if it was still
+   pending ([fut_cancel]) and throws CancelledError in at the await; the timeout context turns the CancelledError of its
+   own expiry into TimeoutError on the way out ([timeout_exit]) and lets everything else pass.  When a future becomes
+   done its callbacks run in registration order, those added with add_done_callback before the wake-ups of the tasks
+   that await it. *)
+Inductive gwa_fut := FutReset | FutStartup.
+Inductive gwa_exc :=
+| EXNcpFailure      (* bellows.exception.NcpFailure raised by _write_frame: the transport is closed *)
+| EXAssertion       (* a failed assert *)
+| EXFuture          (* the exception that was set on the awaited future (connection_lost: the connection error) *)
+| EXTimeout         (* TimeoutError raised by the timeout context *)
+| EXCancelled       (* asyncio.CancelledError *)
+| EXOther.          (* raised by a callee that the translated source of the callee never raises *)
+Inductive gwa_status :=
+| ASuspend (point : nat) (f : gwa_fut) (timeout : option N)   (* suspended at await #point on f [under a timeout] *)
+| AReturn
+| ARaise (e : gwa_exc).
+Inductive gwa_wake := WkFuture | WkTimeout | WkCancel.
+Inductive gwa_await := AwPending | AwValue | AwRaise (e : gwa_exc).
+Definition await_result (f : fstate) (w : gwa_wake) : gwa_await :=
+  match w with
+  | WkFuture => match f with
+                | FOk => AwValue | FExn => AwRaise EXFuture | FCancelled => AwRaise EXCancelled
+                | FPend | FNone => AwPending
+                end
+  | WkTimeout | WkCancel => AwRaise EXCancelled
+  end.
+Definition timeout_exit (w : gwa_wake) (e : gwa_exc) : gwa_exc :=
+  match w, e with WkTimeout, EXCancelled => EXTimeout | _, _ => e end.
+Definition fut_cancel (f : fstate) : fstate := match f with FPend => FCancelled | _ => f end.
+
+Inductive gwa_write := WfWritten (data : list N) | WfNcpFailure | WfRaised.
+Inductive gwa_delegate := DReturn | DRaise (e : gwa_exc).     (* how an awaited coroutine of another object ended *)
+Inductive gwa_eff :=
+| PSendReset (data : list N)       (* self._transport.send_reset(): the bytes AshProtocol.send_reset wrote *)
+| PAshSendData (data : list N).    (* await self._transport.send_data(data) *)
+(* state, as in gen/GenGatewayFn.v: (_reset_future is not None, its future; _startup_reset_future is not None, its
+   future; transport open; _ezsp_event set; _gw is not None; an application callback is registered; effects so far).
+   The future a suspended coroutine holds is the object in the slot (the expression after `await` is evaluated once). *)
+Definition gwa_state := (bool * fstate * bool * fstate * bool * bool * bool * bool * list gwa_eff)%type.
+
+"""
+
+
+def _ga_reserved_tuple(e, where):
+    """(Reserved.X, ...) -> ([ints], 'Reserved.X, ...')"""
+    import bellows.ash as ash
+    if not isinstance(e, ast.Tuple):
+        raise GenError(where, f"expected a tuple of Reserved members: `{ast.unparse(e)}`")
+    vals = []
+    for x in e.elts:
+        if not (isinstance(x, ast.Attribute) and isinstance(x.value, ast.Name) and x.value.id == "Reserved" and x.attr in ash.Reserved.__members__):
+            raise GenError(where, f"expected a Reserved member: `{ast.unparse(x)}`")
+        vals.append(int(ash.Reserved[x.attr]))
+    return vals, ast.unparse(e)
+
+
+def _ga_log_only_if(s, outside_loads):
+    """`if _LOGGER.isEnabledFor(..):` whose body (log calls stripped) only assigns side-effect-free values to locals
+    that nothing outside the block reads"""
+    if not (isinstance(s, ast.If) and not s.orelse and isinstance(s.test, ast.Call)
+            and ast.unparse(s.test.func) in ("_LOGGER.isEnabledFor", "LOGGER.isEnabledFor")):
+        return False
+    ok_nodes = (ast.Call, ast.Attribute, ast.Constant, ast.ListComp, ast.comprehension, ast.JoinedStr, ast.FormattedValue,
+                ast.Name, ast.Load, ast.Store)
+    for b in s.body:
+        if isinstance(b, ast.Pass):
+            continue
+        if not (isinstance(b, ast.Assign) and len(b.targets) == 1 and isinstance(b.targets[0], ast.Name) and b.targets[0].id not in outside_loads):
+            return False
+        for n in ast.walk(b.value):
+            if not isinstance(n, ok_nodes):
+                return False
+            if isinstance(n, ast.Call) and not (isinstance(n.func, ast.Attribute) and n.func.attr == "join" and isinstance(n.func.value, ast.Constant)):
+                return False
+    return True
+
+
+def _ga_write_frame(P):
+    """AshProtocol._write_frame and send_reset"""
+    import bellows.ash as ash
+    where = "AshProtocol._write_frame (source)"
+    node = _StripLogs().visit(_fn_ast(P.__dict__["_write_frame"]))
+    a = node.args
+    if [x.arg for x in a.args] != ["self", "frame"] or [x.arg for x in a.kwonlyargs] != ["prefix", "suffix"] or a.vararg or a.kwarg or a.defaults:
+        raise GenError(where, "parameters")
+    defaults = {k.arg: _ga_reserved_tuple(d, where) for k, d in zip(a.kwonlyargs, a.kw_defaults)}
+    body = [s for s in node.body if not isinstance(s, ast.Pass)]
+    removed = []
+    kept = []
+    for i, s in enumerate(body):
+        others = [x for j, x in enumerate(body) if j != i]
+        loads = {n.id for o in others for n in ast.walk(o) if isinstance(n, ast.Name) and isinstance(n.ctx, ast.Load)}
+        if _ga_log_only_if(s, loads):
+            removed.append(f"if {ast.unparse(s.test)}: <locals of the log call>")
+        else:
+            kept.append(s)
+    if len(kept) != 3:
+        raise GenError(where, "expected: the closed-transport guard, the assignment of the bytes, one transport write; got\n"
+                       + "\n".join(ast.unparse(s) for s in kept))
+    guard, assign, write = kept
+    if not (isinstance(guard, ast.If) and not guard.orelse and _dump(ast.unparse(guard.test)) == _dump("self._transport is None or self._transport.is_closing()")
+            and len(guard.body) == 1 and isinstance(guard.body[0], ast.Raise) and isinstance(guard.body[0].exc, ast.Call)
+            and ast.unparse(guard.body[0].exc.func) == "NcpFailure" and guard.body[0].cause is None):
+        raise GenError(where, f"closed-transport guard: `{ast.unparse(guard)[:120]}`")
+    if not (isinstance(assign, ast.Assign) and len(assign.targets) == 1 and isinstance(assign.targets[0], ast.Name)):
+        raise GenError(where, f"assignment: `{ast.unparse(assign)[:120]}`")
+    var = assign.targets[0].id
+
+    def parts(e):
+        if isinstance(e, ast.BinOp) and isinstance(e.op, ast.Add):
+            return parts(e.left) + parts(e.right)
+        return [e]
+    terms, binds = [], []
+    for p in parts(assign.value):
+        src = ast.unparse(p)
+        if src in ("bytes(prefix)", "bytes(suffix)"):
+            terms.append(src[6:-1])
+        elif src == "self._stuff_bytes(frame.to_bytes())":
+            nm = f"stuffed{len(binds) + 1}"
+            binds.append(nm)
+            terms.append(nm)
+        else:
+            raise GenError(where, f"part of the written bytes: `{src[:100]}`")
+    if not (isinstance(write, ast.Expr) and ast.unparse(write.value) == f"self._transport.write({var})"):
+        raise GenError(where, f"expected self._transport.write({var}): `{ast.unparse(write)[:100]}`")
+    inner = f"let {var} := {' ++ '.join(terms)} in\nWfWritten {var}"
+    for nm in reversed(binds):
+        inner = (f"match py_stuff_bytes frame_to_bytes with   (* self._stuff_bytes(frame.to_bytes()), gen/GenAshFn.v *)\n| None => WfRaised\n"
+                 f"| Some {nm} =>\n{textwrap.indent(inner, '    ')}\nend")
+    out = ("(* from the source of AshProtocol._write_frame; t_open: not (self._transport is None or self._transport.is_closing());\n"
+           "   frame_to_bytes: frame.to_bytes(); result: the bytes handed to transport.write | NcpFailure raised\n"
+           + (f"   not translated (feeds logging only): {'; '.join(removed)}\n" if removed else "") + "*)\n"
+           "Definition py_AshProtocol_write_frame (t_open : bool) (frame_to_bytes : list N) (prefix suffix : list N) : gwa_write :=\n"
+           f"  if negb t_open then WfNcpFailure   (* raise NcpFailure *)\n  else\n{textwrap.indent(inner, '    ')}.\n\n")
+    # ---- send_reset
+    where = "AshProtocol.send_reset (source)"
+    node = _StripLogs().visit(_fn_ast(P.__dict__["send_reset"]))
+    body = [s for s in node.body if not isinstance(s, ast.Pass)]
+    if [x.arg for x in node.args.args] != ["self"] or len(body) != 1 or not (isinstance(body[0], ast.Expr) and isinstance(body[0].value, ast.Call)
+                                                                          and ast.unparse(body[0].value.func) == "self._write_frame"):
+        raise GenError(where, "expected a single call of self._write_frame")
+    c = body[0].value
+    if len(c.args) != 1 or ast.unparse(c.args[0]) != "RstFrame()":
+        raise GenError(where, f"frame written: `{ast.unparse(c)[:100]}`")
+    consts = {f"Reserved.{m.name}": int(m) for m in ash.Reserved}
+    _, info = frame_class(ash.RstFrame, consts)          # to_bytes is self.append_crc(bytes([...])): py_RstFrame_header
+    if info["payload"] is not None or info["hdr_fields"]:
+        raise GenError(where, "RstFrame has fields")
+    kw = {}
+    for k in c.keywords:
+        if k.arg not in ("prefix", "suffix") or k.arg in kw:
+            raise GenError(where, f"keyword `{k.arg}`")
+        kw[k.arg] = _ga_reserved_tuple(k.value, where)
+    pre = kw.get("prefix", defaults["prefix"])
+    suf = kw.get("suffix", defaults["suffix"])
+    lst = lambda v: "[" + "; ".join(str(x) for x in v) + "]"
+    out += ("(* from the source of AshProtocol.send_reset: " + ast.unparse(c) + f"\n   RstFrame().to_bytes() is append_crc py_RstFrame_header (gen/GenAshFn.v); prefix {pre[1]}"
+            f"{'' if 'prefix' in kw else ' (default)'}, suffix {suf[1]}{'' if 'suffix' in kw else ' (default)'} *)\n"
+            "Definition py_AshProtocol_send_reset (t_open : bool) : gwa_write :=\n"
+            f"  py_AshProtocol_write_frame t_open (append_crc py_RstFrame_header) {lst(pre[0])} {lst(suf[0])}.\n\n")
+    return out
+
+
+class GaTr:
+    """one coroutine (or done-callback) of Gateway.  hs: stack of enclosing blocks, ('finally', body) | ('timeout', const);
+    known: the future attributes that certainly hold a future at this point (needed by `await self._x` and
+    `self._x.add_done_callback`)"""
+
+    def __init__(self, stem, where, ns, node, params=()):
+        self.stem, self.where, self.ns, self.params = stem, where, ns, tuple(params)
+        aw = sorted((n for n in ast.walk(node) if isinstance(n, ast.Await)), key=lambda n: (n.lineno, n.col_offset))
+        self.points = {id(n): k + 1 for k, n in enumerate(aw)}
+        self.jobs = {}            # k -> (future attribute, continuation, hs, is_return, timeout constant)
+        self.callbacks = {}       # future attribute -> done-callbacks registered at its creation
+        self.consts = {}          # emitted constant -> value
+        self.delegates = 0
+
+    def refuse(self, node, why="unsupported construct"):
+        src = ast.unparse(node) if isinstance(node, ast.AST) else str(node)
+        raise GenError(self.where, f"{why}: `{src[:110]}`")
+
+    @staticmethod
+    def fut_attr(e):
+        if isinstance(e, ast.Attribute) and isinstance(e.value, ast.Name) and e.value.id == "self" and e.attr in GW_FUT:
+            return e.attr
+        return None
+
+    def cond(self, t, known):
+        """(term, known in the true branch, known in the false branch)"""
+        if isinstance(t, ast.UnaryOp) and isinstance(t.op, ast.Not):
+            c, kt, kf = self.cond(t.operand, known)
+            return f"(negb {c})", kf, kt
+        if isinstance(t, ast.Compare) and len(t.ops) == 1 and isinstance(t.comparators[0], ast.Constant) and t.comparators[0].value is None:
+            f = self.fut_attr(t.left)
+            if f and isinstance(t.ops[0], ast.IsNot):
+                return GW_FUT[f][0], known | {f}, known - {f}
+            if f and isinstance(t.ops[0], ast.Is):
+                return f"(negb {GW_FUT[f][0]})", known - {f}, known | {f}
+        f = self.fut_attr(t)
+        if f:                                               # a Future object is truthy
+            return GW_FUT[f][0], known | {f}, known - {f}
+        self.refuse(t, "condition")
+
+    def simple(self, body, known):
+        """statements allowed in a finally body / a done-callback: no await, no way out"""
+        out = ""
+        for s in body:
+            if isinstance(s, ast.Pass):
+                continue
+            f = self.fut_attr(s.targets[0]) if isinstance(s, ast.Assign) and len(s.targets) == 1 else None
+            if f and isinstance(s.value, ast.Constant) and s.value.value is None:
+                out += f"let {GW_FUT[f][0]} := false in\n"
+                known = known - {f}
+                continue
+            self.refuse(s, "statement of a finally body / done-callback")
+        return out, known
+
+    # ---- ways out -----------------------------------------------------------------------------------
+    def leave_return(self, hs, known):
+        out = ""
+        for h in reversed(hs):
+            if h[0] == "finally":
+                lets, known = self.simple(h[1], known)
+                out += lets
+        return out + f"({GA_ST}, AReturn)"
+
+    def raise_static(self, exc, hs, known):
+        out = ""
+        for h in reversed(hs):
+            if h[0] == "finally":
+                lets, known = self.simple(h[1], known)
+                out += lets
+            # an exception that is not the CancelledError of the expiry passes the timeout context unchanged
+        return out + f"({GA_ST}, ARaise {exc})"
+
+    def raise_dyn(self, var, hs, known, wake):
+        out = ""
+        for h in reversed(hs):
+            if h[0] == "finally":
+                lets, known = self.simple(h[1], known)
+                out += lets
+            elif h[0] == "timeout":
+                if not wake:
+                    self.refuse(h[1], "an exception of a delegated await under a timeout context")
+                out += f"let {var} := timeout_exit w {var} in   (* leaves `async with asyncio_timeout(..)` *)\n"
+        return out + f"({GA_ST}, ARaise {var})"
+
+    def const(self, e):
+        if not (isinstance(e, ast.Name) and e.id in self.ns):
+            self.refuse(e, "the timeout is not a module-level name")
+        v = self.ns[e.id]
+        if isinstance(v, bool) or not isinstance(v, int) or v < 0:
+            raise GenError(self.where, f"{e.id} = {v!r} is not a natural number")
+        self.consts[f"py_{e.id}"] = v
+        return f"py_{e.id}"
+
+    # ---- awaits --------------------------------------------------------------------------------------
+    def await_(self, node, rest, hs, known, is_return):
+        ind = lambda txt, k=2: textwrap.indent(txt, " " * k)
+        v = node.value
+        if isinstance(v, ast.Call):
+            if ast.unparse(v) == "self._transport.send_data(data)" and "data" in self.params and self.delegates == 0:
+                self.delegates += 1
+                ok = self.leave_return(hs, known) if is_return else self.stmts(rest, hs, known)
+                return ("let eff := eff ++ [PAshSendData data] in\nmatch sent with\n"
+                        f"| DReturn =>\n{ind(ok, 4)}\n| DRaise e =>\n{ind(self.raise_dyn('e', hs, known, False), 4)}\nend")
+            self.refuse(node, "awaited call")
+        f = self.fut_attr(v)
+        if not f:
+            self.refuse(node, "awaited expression (only the two future attributes can be awaited)")
+        if f not in known:
+            self.refuse(node, "cannot show that the awaited attribute holds a future here")
+        k = self.points[id(node)]
+        timeout = hs[-1][1] if hs and hs[-1][0] == "timeout" else None
+        job = (f, rest, hs, is_return, timeout)
+        if k in self.jobs and self.jobs[k][2] != hs:
+            self.refuse(node, "await reached under two different block stacks")
+        self.jobs[k] = job
+        susp = f"({GA_ST}, ASuspend {k} {GA_FUTNAME[f]} {'(Some ' + timeout + ')' if timeout else 'None'})"
+        return (f"if is_pend {GW_FUT[f][1]} then\n  {susp}   (* suspends at await #{k} *)\n"
+                f"else   (* the future is done: no suspension *)\n  {self.stem}_resume_{k} {GA_ST} WkFuture")
+
+    def resume_fn(self, k):
+        ind = lambda txt, n=2: textwrap.indent(txt, " " * n)
+        f, rest, hs, is_return, timeout = self.jobs[k]
+        none = frozenset()      # other code has run since: nothing is known about the attributes
+        ok = self.leave_return(hs, none) if is_return else self.stmts(rest, hs, none)
+        exn = self.raise_dyn("e", hs, none, True)
+        susp = f"({GA_ST}, ASuspend {k} {GA_FUTNAME[f]} {'(Some ' + timeout + ')' if timeout else 'None'})"
+        return (f"Definition {self.stem}_resume_{k} (s : gwa_state) (w : gwa_wake) : gwa_state * gwa_status :=\n"
+                f"  let '{GA_ST} := s in\n  match await_result {GW_FUT[f][1]} w with\n"
+                f"  | AwPending => {susp}   (* not woken: still suspended *)\n"
+                f"  | AwValue =>\n{ind(ok, 6)}\n  | AwRaise e =>\n{ind(exn, 6)}\n  end.\n")
+
+    # ---- statements ----------------------------------------------------------------------------------
+    def stmts(self, body, hs, known):
+        ind = lambda txt, k=2: textwrap.indent(txt, " " * k)
+        if not body:
+            return self.leave_return(hs, known)
+        s, rest = body[0], body[1:]
+        if isinstance(s, _Pop):
+            if hs[-1][0] == "finally":
+                lets, known2 = self.simple(hs[-1][1], known)
+                return lets + self.stmts(rest, hs[:-1], known2)
+            return self.stmts(rest, hs[:-1], known)
+        if isinstance(s, ast.Pass):
+            return self.stmts(rest, hs, known)
+        if isinstance(s, ast.Return):
+            if s.value is None:
+                return self.leave_return(hs, known)
+            if isinstance(s.value, ast.Await):
+                return self.await_(s.value, [], hs, known, True)
+            self.refuse(s, "return value")
+        if isinstance(s, ast.Expr) and isinstance(s.value, ast.Await):
+            return self.await_(s.value, rest, hs, known, False)
+        if isinstance(s, ast.Assert) and s.msg is None:
+            c, kt, kf = self.cond(s.test, known)
+            return (f"if {c} then\n{ind(self.stmts(rest, hs, kt))}\nelse   (* AssertionError *)\n"
+                    f"{ind(self.raise_static('EXAssertion', hs, kf))}")
+        if isinstance(s, ast.If):
+            c, kt, kf = self.cond(s.test, known)
+            a = self.stmts(list(s.body) + rest, hs, kt)
+            b = self.stmts(list(s.orelse) + rest, hs, kf)
+            return f"if {c} then\n{ind(a)}\nelse\n{ind(b)}"
+        if isinstance(s, ast.Try):
+            if s.handlers or s.orelse or not s.finalbody:
+                self.refuse(s, "only try / finally is supported")
+            self.simple(list(s.finalbody), frozenset())
+            return self.stmts(list(s.body) + [_Pop()] + rest, hs + (("finally", list(s.finalbody)),), known)
+        if isinstance(s, ast.AsyncWith):
+            ce = s.items[0].context_expr if len(s.items) == 1 and s.items[0].optional_vars is None else None
+            if not (isinstance(ce, ast.Call) and ast.unparse(ce.func) == "asyncio_timeout" and len(ce.args) == 1 and not ce.keywords):
+                self.refuse(s, "only `async with asyncio_timeout(<constant>):` is supported")
+            b = s.body[0] if len(s.body) == 1 else None
+            if not ((isinstance(b, ast.Return) and isinstance(b.value, ast.Await)) or (isinstance(b, ast.Expr) and isinstance(b.value, ast.Await))):
+                self.refuse(s, "the block under the timeout must be a single await")
+            return self.stmts(list(s.body) + [_Pop()] + rest, hs + (("timeout", self.const(ce.args[0])),), known)
+        if isinstance(s, ast.Assign) and len(s.targets) == 1:
+            f = self.fut_attr(s.targets[0])
+            if f and isinstance(s.value, ast.Constant) and s.value.value is None:
+                return f"let {GW_FUT[f][0]} := false in\n{self.stmts(rest, hs, known - {f})}"
+            if f and ast.unparse(s.value) in GA_CREATE:
+                cbs = []
+                while rest and not isinstance(rest[0], _Pop) and ast.unparse(rest[0]).startswith(f"self.{f}.add_done_callback("):
+                    c = rest[0].value if isinstance(rest[0], ast.Expr) else None
+                    if not (isinstance(c, ast.Call) and len(c.args) == 1 and not c.keywords and isinstance(c.args[0], ast.Attribute)
+                            and isinstance(c.args[0].value, ast.Name) and c.args[0].value.id == "self"):
+                        self.refuse(rest[0], "done-callback")
+                    cbs.append(c.args[0].attr)
+                    rest = rest[1:]
+                if self.callbacks.setdefault(f, cbs) != cbs:
+                    self.refuse(s, "two creation sites with different done-callbacks")
+                note = f" with the done-callbacks {', '.join(cbs)} ({self.stem}_future_done)" if cbs else ""
+                return (f"let {GW_FUT[f][0]} := true in\nlet {GW_FUT[f][1]} := FPend in   (* a new future{note} *)\n"
+                        f"{self.stmts(rest, hs, known | {f})}")
+            self.refuse(s, "assignment")
+        if isinstance(s, ast.Expr) and isinstance(s.value, ast.Call):
+            src = ast.unparse(s.value)
+            if src == "self._transport.send_reset()":
+                return ("match py_AshProtocol_send_reset t_open with   (* self._transport is the AshProtocol *)\n"
+                        f"| WfNcpFailure =>\n{ind(self.raise_static('EXNcpFailure', hs, known), 4)}\n"
+                        f"| WfRaised =>\n{ind(self.raise_static('EXOther', hs, known), 4)}\n"
+                        f"| WfWritten data =>\n    let eff := eff ++ [PSendReset data] in\n{ind(self.stmts(rest, hs, known), 4)}\nend")
+            if ".add_done_callback(" in src:
+                self.refuse(s, "a done-callback must be registered right after the creation of the future")
+        self.refuse(s)
+
+    def coroutine(self, node, comment, extra_sig=""):
+        begin = self.stmts(list(node.body), (), frozenset())
+        done, texts = set(), {}
+        while set(self.jobs) - done:
+            k = min(set(self.jobs) - done)
+            texts[k] = self.resume_fn(k)
+            done.add(k)
+        if set(self.points.values()) - done - ({1} if self.delegates else set()):
+            raise GenError(self.where, "an await was not reached by the translation")
+        out = [comment]
+        for k in sorted(texts, reverse=True):
+            out.append(texts[k])
+        out.append(f"Definition {self.stem}_begin (s : gwa_state){extra_sig} : gwa_state * gwa_status :=\n"
+                   f"  let '{GA_ST} := s in\n{textwrap.indent(begin, '  ')}.\n\n")
+        return "".join(out)
+
+
+def _ga_scan_class(cls_node):
+    """every use of the two future attributes in the class: created only by the owning coroutine, otherwise assigned
+    None; only done / set_result / set_exception / add_done_callback are called on them (no cancel())"""
+    for m in cls_node.body:
+        if not isinstance(m, (ast.FunctionDef, ast.AsyncFunctionDef)):
+            continue
+        for n in ast.walk(m):
+            if isinstance(n, (ast.Assign, ast.AugAssign, ast.AnnAssign)):
+                tgts = n.targets if isinstance(n, ast.Assign) else [n.target]
+                for tg in tgts:
+                    for x in ast.walk(tg):
+                        f = GaTr.fut_attr(x)
+                        if not f:
+                            continue
+                        val = n.value
+                        if isinstance(n, ast.Assign) and len(tgts) == 1 and x is tg and isinstance(val, ast.Constant) and val.value is None:
+                            continue
+                        if isinstance(n, ast.Assign) and len(tgts) == 1 and x is tg and ast.unparse(val) in GA_CREATE and m.name == GA_OWNER[f]:
+                            continue
+                        raise GenError(f"Gateway.{m.name}", f"assignment to self.{f}: `{ast.unparse(n)[:100]}`")
+            if isinstance(n, ast.Attribute) and GaTr.fut_attr(n.value):
+                f = GaTr.fut_attr(n.value)
+                if n.attr not in ("done", "set_result", "set_exception", "add_done_callback"):
+                    raise GenError(f"Gateway.{m.name}", f"self.{f}.{n.attr} is not modelled")
+                if n.attr == "add_done_callback" and m.name != GA_OWNER[f]:
+                    raise GenError(f"Gateway.{m.name}", f"done-callback added to self.{f} outside {GA_OWNER[f]}")
+
+
+def gen_gateway_async_fn() -> str:
+    import bellows.ash as ash
+    import bellows.uart as U
+    G = U.Gateway
+    out = [GA_PRELUDE]
+    ns = vars(U)
+    # ---- linking: Gateway._transport is the AshProtocol; the timeout context is asyncio's
+    if getattr(U.asyncio_timeout, "__name__", "") != "timeout" or getattr(U.asyncio_timeout, "__module__", "") not in ("asyncio.timeouts", "async_timeout"):
+        raise GenError("bellows.uart", "asyncio_timeout is not asyncio.timeout / async_timeout.timeout")
+    pins = [("Gateway.connection_made", G.__dict__["connection_made"], "self._transport = transport"),
+            ("AshProtocol.connection_made", ash.AshProtocol.__dict__["connection_made"], "self._ezsp_protocol.connection_made(self)"),
+            ("Gateway.__init__", G.__dict__["__init__"], "self._reset_future = None"),
+            ("Gateway.__init__", G.__dict__["__init__"], "self._startup_reset_future = None")]
+    for nm, fn, stmt in pins:
+        if not any(ast.unparse(s) == stmt for s in _fn_ast(fn).body):
+            raise GenError(nm, f"`{stmt}` not found")
+    _ga_scan_class(ast.parse(textwrap.dedent(inspect.getsource(G))).body[0])
+    out.append(_ga_write_frame(ash.AshProtocol))
+
+    # ---- _reset_cleanup (a done-callback)
+    node = _StripLogs().visit(_fn_ast(G.__dict__["_reset_cleanup"]))
+    if [a.arg for a in node.args.args] != ["self", "future"]:
+        raise GenError("Gateway._reset_cleanup", "parameters")
+    tr = GaTr("py_Gateway__reset_cleanup", "Gateway._reset_cleanup (source)", ns, node)
+    lets, _ = tr.simple(list(node.body), frozenset())
+    out.append("(* from the source of Gateway._reset_cleanup *)\nDefinition py_Gateway__reset_cleanup_a (s : gwa_state) : gwa_state :=\n"
+               f"  let '{GA_ST} := s in\n{textwrap.indent(lets, '  ')}  {GA_ST}.\n\n")
+    known_cbs = {"_reset_cleanup": "py_Gateway__reset_cleanup_a"}
+
+    consts, bodies = {}, []
+    for name, stem, short in (("reset", "py_Gateway_reset", "reset"), ("wait_for_startup_reset", "py_Gateway_wait_for_startup_reset", "startup")):
+        node = _StripLogs().visit(_fn_ast_async(G.__dict__[name]))
+        if [a.arg for a in node.args.args] != ["self"] or node.args.vararg or node.args.kwarg or node.args.kwonlyargs:
+            raise GenError(f"Gateway.{name}", "parameters")
+        tr = GaTr(stem, f"Gateway.{name} (source)", ns, node)
+        txt = tr.coroutine(node, f"(* from the source of Gateway.{name}: the segments between its awaits, last first *)\n")
+        f = next(a for a, o in GA_OWNER.items() if o == name)
+        if f not in tr.callbacks:
+            raise GenError(f"Gateway.{name}", f"self.{f} is not created here")
+        for o in tr.callbacks:
+            if o != f:
+                raise GenError(f"Gateway.{name}", f"creates self.{o}")
+        cbs = tr.callbacks[f]
+        term = "s"
+        for cb in cbs:
+            if cb not in known_cbs:
+                raise GenError(f"Gateway.{name}", f"done-callback self.{cb} is not translated")
+            term = f"{known_cbs[cb]} ({term})" if term != "s" else f"{known_cbs[cb]} s"
+        bodies.append(f"(* what asyncio runs first when the future created by Gateway.{name} becomes done: the callbacks registered with\n"
+                      f"   add_done_callback right after its creation, in order ({', '.join(cbs) if cbs else 'none'}) *)\n"
+                      f"Definition {stem}_future_done (s : gwa_state) : gwa_state := {term}.\n\n" + txt)
+        consts.update(tr.consts)
+    for c, v in sorted(consts.items()):
+        out.append(f"(* module constant of bellows.uart, read from the live module *)\nDefinition {c} : N := {v}.\n\n")
+    out.extend(bodies)
+
+    # ---- send_data: delegation to the ASH layer
+    node = _StripLogs().visit(_fn_ast_async(G.__dict__["send_data"]))
+    if [a.arg for a in node.args.args] != ["self", "data"] or node.args.vararg or node.args.kwarg or node.args.kwonlyargs:
+        raise GenError("Gateway.send_data", "parameters")
+    tr = GaTr("py_Gateway_send_data", "Gateway.send_data (source)", ns, node, params=("data",))
+    term = tr.stmts(list(node.body), (), frozenset())
+    if tr.jobs or tr.delegates != 1:
+        raise GenError("Gateway.send_data", "expected exactly one delegated await")
+    out.append("(* from the source of Gateway.send_data; sent: how AshProtocol.send_data(data) ended *)\n"
+               "Definition py_Gateway_send_data (s : gwa_state) (data : list N) (sent : gwa_delegate) : gwa_state * gwa_status :=\n"
+               f"  let '{GA_ST} := s in\n{textwrap.indent(term, '  ')}.\n")
+    return "".join(out)
